@@ -390,7 +390,7 @@ Proof. intros a b. unfold reals. apply flat_map_app. Qed.
 
 Definition Shape (fl : follower) : Prop :=
   (f_l fl = LExited -> f_hb fl = false) /\
-  (f_hb fl = true -> o_follow (fo fl) = true /\ o_pulse (fo fl) = true) /\
+  (f_hb fl = true -> o_follow (fo fl) = true /\ o_pulse (fo fl) = true /\ f_l fl <> LNone) /\
   (f_l fl <> LNone -> o_follow (fo fl) = true) /\
   match f_h fl with
   | HNotStarted => f_l fl = LNone /\ f_hb fl = false /\ items fl = [] /\ f_count fl = 0 /\ f_last fl = None /\
@@ -755,3 +755,1647 @@ Proof.
   pose proof (scan_fold c cur st None) as F. rewrite H in F.
   destruct F as [_ B]; [intros b E; discriminate E|]. exact B.
 Qed.
+
+(* once the limit is reached a step of the follower delivers no further frame *)
+Lemma full_step : forall s k fl fl' n, reach s -> nth_error (g_fs s) k = Some fl ->
+  fstep s fl fl' -> o_limit (fo fl) = Some n -> (o_tail (fo fl) = false \/ n <> 0) ->
+  length (seen fl) = N.to_nat n -> seen fl' = seen fl.
+Proof.
+  intros s k fl fl' n R E St L Hnz Hlen.
+  pose proof (cnt s k fl R E n L Hnz) as HC.
+  pose proof (shape s k fl R E) as (Hx & Hb & Hn & Hh).
+  rewrite !seen_items.
+  destruct (items_step s fl fl' St) as [X|[(Y & X)|[(f & Eh & X)|[(f & El & _ & _ & X)|[(_ & _ & X)|(_ & X)]]]]];
+    rewrite X; try reflexivity.
+  - assert (Z : items fl = []).
+    { destruct Y as [Y|Y].
+      - destruct (f_h fl) as [| | | |[|]|]; split_all; try assumption; try congruence.
+      - rewrite Y in Hh. cbv beta iota in Hh. split_all; assumption. }
+    rewrite Z. reflexivity.
+  - exfalso. rewrite Eh in HC. lia.
+  - exfalso. rewrite El in *.
+    destruct (f_h fl) as [| | | |[|]|]; split_all; try congruence; try discriminate; lia.
+  - rewrite reals_app. apply app_nil_r.
+  - rewrite reals_app. apply app_nil_r.
+Qed.
+
+Theorem limit_closes : forall s k fl n, reach s -> nth_error (g_fs s) k = Some fl ->
+  o_limit (fo fl) = Some n -> (o_tail (fo fl) = false \/ n <> 0) ->
+  length (seen fl) = N.to_nat n ->
+  forall sched s' fl', crun s sched = Some s' -> nth_error (g_fs s') k = Some fl' ->
+  seen fl' = seen fl.
+Proof.
+  intros s k fl n R E L Hnz Hlen sched s' fl' H E'.
+  apply (crun_stable _ seen
+           (fun fl => o_limit (fo fl) = Some n /\ (o_tail (fo fl) = false \/ n <> 0) /\
+                      length (seen fl) = N.to_nat n))
+    with (sched := sched) (s := s) (s' := s') (k := k); try assumption; [|repeat split; assumption].
+  clear. intros s k fl fl' R E St (L & Hnz & Hlen).
+  pose proof (full_step s k fl fl' n R E St L Hnz Hlen) as X.
+  rewrite (fo_step s fl fl' St), X. repeat split; assumption.
+Qed.
+
+(* when is the consumer's channel closed *)
+Theorem closed_spec : forall s k fl, reach s -> nth_error (g_fs s) k = Some fl ->
+  (closed fl = true <->
+   (exists b, f_h fl = HFinished b \/ f_h fl = HNone) /\ (f_l fl = LExited \/ f_l fl = LNone) /\
+   f_out fl = []).
+Proof.
+  intros s k fl R E. pose proof (shape s k fl R E) as (Hx & Hb & Hn & Hh). unfold closed. split.
+  - intros H. destruct (f_h fl) as [| | | |b|]; try discriminate H;
+      destruct (f_l fl); try discriminate H;
+      destruct (f_hb fl); try discriminate H; destruct (f_out fl); try discriminate H;
+      (split; [first [exists true; right; reflexivity | exists b; left; reflexivity]|]);
+      (split; [first [left; reflexivity|right; reflexivity]|reflexivity]).
+  - intros ([b Eh] & El & Eo). rewrite Eo.
+    assert (B : f_hb fl = false).
+    { destruct El as [El|El]; [exact (Hx El)|]. destruct (f_hb fl); [|reflexivity].
+      destruct (Hb eq_refl) as (_ & _ & F). contradiction. }
+    rewrite B. destruct Eh as [Eh|Eh]; rewrite Eh; destruct El as [El|El]; rewrite El; reflexivity.
+Qed.
+
+Theorem limit_ends_stream : forall s k fl n, reach s -> nth_error (g_fs s) k = Some fl ->
+  o_limit (fo fl) = Some n -> (o_tail (fo fl) = false \/ n <> 0) ->
+  length (seen fl) = N.to_nat n ->
+  (exists b, f_h fl = HFinished b \/ f_h fl = HNone) -> f_l fl <> LAtSent ->
+  f_hb fl = false /\ (f_l fl = LExited \/ f_l fl = LNone) /\ (f_out fl = [] -> closed fl = true).
+Proof.
+  intros s k fl n R E L Hnz Hlen Eh Hl.
+  pose proof (cnt s k fl R E n L Hnz) as HC.
+  pose proof (shape s k fl R E) as (Hx & Hb & Hn & Hh).
+  assert (El : f_l fl = LExited \/ f_l fl = LNone).
+  { destruct Eh as [b [Eh|Eh]]; rewrite Eh in HC, Hh; [destruct b|];
+      cbv beta iota in HC; cbv beta iota in Hh; try tauto;
+      destruct (f_l fl); try lia; try tauto; try congruence. }
+  split; [|split; [exact El|]].
+  - destruct El as [El|El]; [exact (Hx El)|]. destruct (f_hb fl); [|reflexivity].
+    destruct (Hb eq_refl) as (_ & _ & F). contradiction.
+  - intros Eo. apply (closed_spec s k fl R E). split; [exact Eh|]. split; assumption.
+Qed.
+
+(* ------------------------------------------------------------------ *)
+(* F10: the known gap for ephemeral frames, by computation            *)
+(* ------------------------------------------------------------------ *)
+
+Definition eph_init : cstate :=
+  cinit true 2 [mkC 0 0 false; mkC 1 0 false]
+        [[mkP 0 true true]; [mkP 0 false true]] [mkO true false None None None false] 0.
+Definition eph_sched : list label :=
+  [LSubscribe 0; LStart 0;
+   LEnter 0; LCommit 0; LBcast 0; LRelease 0;
+   LEnter 1; LCommit 1; LBcast 1; LRelease 1;
+   LHist 0; LHist 0; LHist 0; LHist 0; LHist 0;
+   LLive 0; LLive 0; LLive 0; LLive 0].
+
+Lemma eph_init_ok : init_ok eph_init.
+Proof.
+  exists 2, [mkC 0 0 false; mkC 1 0 false], [[mkP 0 true true]; [mkP 0 false true]],
+         [mkO true false None None None false], 0%nat.
+  split; [reflexivity|]. split.
+  - repeat constructor.
+  - repeat constructor.
+Qed.
+
+(* the ephemeral frame #2 is broadcast after the follower subscribed (subscription point 2),
+   it is in scope, the follower has consumed the whole channel and its stream is still
+   open, yet #2 was not delivered: it fell between the history scan (ephemeral frames are
+   not stored) and the live filter (id 2 <= hand-off id 3) *)
+Theorem ephemeral_dropped_witness :
+  exists s fl,
+    reach s /\ crun eph_init eph_sched = Some s /\ nth_error (g_fs s) 0 = Some fl /\
+    (exists s1 fl1, crun eph_init [LSubscribe 0] = Some s1 /\ nth_error (g_fs s1) 0 = Some fl1 /\
+                    f_pos fl1 = 2%nat) /\
+    seen fl = [mkC 0 0 false; mkC 1 0 false; mkC 3 0 false] /\
+    nth_error (g_chan s) 2 = Some (mkC 2 0 true) /\
+    scope_ok (fo fl) (mkC 2 0 true) = true /\
+    ~ In (mkC 2 0 true) (seen fl) /\
+    f_pos fl = length (g_chan s) /\ f_l fl = LRecvWait /\ closed fl = false /\
+    f_last fl = Some 3.
+Proof.
+  exists (match crun eph_init eph_sched with Some s => s | None => eph_init end).
+  exists (match crun eph_init eph_sched with
+          | Some s => match nth_error (g_fs s) 0 with Some fl => fl | None => init_follower (mkO true false None None None false) end
+          | None => init_follower (mkO true false None None None false) end).
+  split; [exists eph_init, eph_sched; split; [exact eph_init_ok|vm_compute; reflexivity]|].
+  split; [vm_compute; reflexivity|]. split; [vm_compute; reflexivity|].
+  split.
+  { exists (match crun eph_init [LSubscribe 0] with Some s => s | None => eph_init end).
+    eexists. split; [vm_compute; reflexivity|]. split; vm_compute; reflexivity. }
+  split; [vm_compute; reflexivity|]. split; [vm_compute; reflexivity|].
+  split; [vm_compute; reflexivity|]. split.
+  { vm_compute. intros [H|[H|[H|[]]]]; discriminate H. }
+  vm_compute. repeat split.
+Qed.
+
+(* ------------------------------------------------------------------ *)
+(* F11: non-vacuity                                                   *)
+(* ------------------------------------------------------------------ *)
+
+Definition hl_init : cstate :=
+  cinit true 1 [mkC 0 0 false] [[mkP 0 false true]] [mkO true false None None None true] 0.
+Definition hl_sched : list label :=
+  [LSubscribe 0; LStart 0; LHist 0; LHist 0; LHist 0;
+   LEnter 0; LCommit 0; LBcast 0; LRelease 0; LLive 0; LLive 0; LLive 0; LPulse 0; LConsume 0].
+
+Lemma hl_init_ok : init_ok hl_init.
+Proof.
+  exists 1, [mkC 0 0 false], [[mkP 0 false true]], [mkO true false None None None true], 0%nat.
+  split; [reflexivity|]. split; repeat constructor.
+Qed.
+
+Example history_then_live_reachable :
+  exists s fl, reach s /\ crun hl_init hl_sched = Some s /\ nth_error (g_fs s) 0 = Some fl /\
+               seen fl = [mkC 0 0 false; mkC 1 0 false] /\
+               f_got fl ++ f_out fl = [IReal (mkC 0 0 false); IThreshold; IReal (mkC 1 0 false); IPulse] /\
+               f_last fl = Some 0 /\ f_h fl = HFinished true /\ f_l fl = LRecvWait.
+Proof.
+  exists (match crun hl_init hl_sched with Some s => s | None => hl_init end).
+  exists (match crun hl_init hl_sched with
+          | Some s => match nth_error (g_fs s) 0 with Some fl => fl | None => init_follower (mkO true false None None None false) end
+          | None => init_follower (mkO true false None None None false) end).
+  split; [exists hl_init, hl_sched; split; [exact hl_init_ok|vm_compute; reflexivity]|].
+  vm_compute. repeat split.
+Qed.
+
+(* a limited follow that ends exactly at the limit, across the hand-off *)
+Definition lim_init : cstate :=
+  cinit true 1 [mkC 0 0 false] [[mkP 0 false true; mkP 0 false true]]
+        [mkO true false None (Some 2) None true] 0.
+Definition lim_sched : list label :=
+  [LSubscribe 0; LStart 0; LHist 0; LHist 0; LHist 0;
+   LEnter 0; LCommit 0; LBcast 0; LRelease 0; LEnter 0; LCommit 0; LBcast 0; LRelease 0;
+   LLive 0; LLive 0; LLive 0].
+
+Lemma lim_init_ok : init_ok lim_init.
+Proof.
+  exists 1, [mkC 0 0 false], [[mkP 0 false true; mkP 0 false true]],
+         [mkO true false None (Some 2) None true], 0%nat.
+  split; [reflexivity|]. split; repeat constructor.
+Qed.
+
+Example limit_reached_reachable :
+  exists s fl, reach s /\ crun lim_init lim_sched = Some s /\ nth_error (g_fs s) 0 = Some fl /\
+               seen fl = [mkC 0 0 false; mkC 1 0 false] /\ length (g_chan s) = 3%nat /\
+               f_l fl = LExited /\ f_hb fl = false.
+Proof.
+  exists (match crun lim_init lim_sched with Some s => s | None => lim_init end).
+  exists (match crun lim_init lim_sched with
+          | Some s => match nth_error (g_fs s) 0 with Some fl => fl | None => init_follower (mkO true false None None None false) end
+          | None => init_follower (mkO true false None None None false) end).
+  split; [exists lim_init, lim_sched; split; [exact lim_init_ok|vm_compute; reflexivity]|].
+  vm_compute. repeat split.
+Qed.
+
+(* corner cases of the model that make the naive statements false *)
+
+(* tail with limit 0 delivers one frame (count-then-compare in the live task) *)
+Definition t0_init : cstate :=
+  cinit true 0 [] [[mkP 0 false true]] [mkO true true None (Some 0) None false] 0.
+Definition t0_sched : list label :=
+  [LSubscribe 0; LStart 0; LEnter 0; LCommit 0; LBcast 0; LRelease 0; LLive 0; LLive 0; LLive 0].
+
+Lemma t0_init_ok : init_ok t0_init.
+Proof.
+  exists 0, [], [[mkP 0 false true]], [mkO true true None (Some 0) None false], 0%nat.
+  split; [reflexivity|]. split; constructor.
+Qed.
+
+Example tail_limit_zero_delivers_one :
+  exists s fl, reach s /\ crun t0_init t0_sched = Some s /\ nth_error (g_fs s) 0 = Some fl /\
+               o_limit (fo fl) = Some 0 /\ o_tail (fo fl) = true /\ seen fl = [mkC 0 0 false] /\
+               f_l fl = LExited.
+Proof.
+  exists (match crun t0_init t0_sched with Some s => s | None => t0_init end).
+  exists (match crun t0_init t0_sched with
+          | Some s => match nth_error (g_fs s) 0 with Some fl => fl | None => init_follower (mkO true false None None None false) end
+          | None => init_follower (mkO true false None None None false) end).
+  split; [exists t0_init, t0_sched; split; [exact t0_init_ok|vm_compute; reflexivity]|].
+  vm_compute. repeat split.
+Qed.
+
+(* last-id beyond every committed id: the history is empty, the hand-off carries no id,
+   and the live task delivers a frame that is NOT after last-id *)
+Definition fut_init : cstate :=
+  cinit true 0 [] [[mkP 0 false true]] [mkO true false (Some 1000) None None false] 0.
+Definition fut_sched : list label :=
+  [LSubscribe 0; LStart 0; LHist 0; LHist 0; LEnter 0; LCommit 0; LBcast 0; LRelease 0; LLive 0; LLive 0].
+
+Lemma fut_init_ok : init_ok fut_init.
+Proof.
+  exists 0, [], [[mkP 0 false true]], [mkO true false (Some 1000) None None false], 0%nat.
+  split; [reflexivity|]. split; constructor.
+Qed.
+
+Example future_last_id_not_filtered_live :
+  exists s fl, reach s /\ crun fut_init fut_sched = Some s /\ nth_error (g_fs s) 0 = Some fl /\
+               o_tail (fo fl) = false /\ f_last fl = None /\ seen fl = [mkC 0 0 false] /\
+               after_c (o_last (fo fl)) (mkC 0 0 false) = false.
+Proof.
+  exists (match crun fut_init fut_sched with Some s => s | None => fut_init end).
+  exists (match crun fut_init fut_sched with
+          | Some s => match nth_error (g_fs s) 0 with Some fl => fl | None => init_follower (mkO true false None None None false) end
+          | None => init_follower (mkO true false None None None false) end).
+  split; [exists fut_init, fut_sched; split; [exact fut_init_ok|vm_compute; reflexivity]|].
+  vm_compute. repeat split.
+Qed.
+
+(* ------------------------------------------------------------------ *)
+(* a committed frame is broadcast, or is the one frame in flight      *)
+(* ------------------------------------------------------------------ *)
+
+Definition G1 (s : cstate) : Prop :=
+  forall f, In f (g_stream s) ->
+            In f (g_chan s) \/ exists w wr, nth_error (g_ws s) w = Some wr /\ w_st wr = WCommitted f.
+
+Lemma g1_all_in_chan : forall s w wr,
+  Inv s -> G1 s -> g_lock s = Some w -> nth_error (g_ws s) w = Some wr ->
+  (forall f, w_st wr <> WCommitted f) -> forall g, In g (g_stream s) -> In g (g_chan s).
+Proof.
+  intros s w wr HI HG L E N g Hg. destruct (HG g Hg) as [H|(w' & wr' & E' & S')]; [exact H|].
+  exfalso. destruct (PeanoNat.Nat.eq_dec w w') as [->|D].
+  - rewrite E in E'. inversion E'; subst wr'. exact (N g S').
+  - pose proof (others_quiet s w w' wr' HI L D E') as Q. unfold quiet in Q. rewrite S' in Q. exact Q.
+Qed.
+
+Lemma g1_free_all_in_chan : forall s,
+  Inv s -> G1 s -> g_lock s = None -> forall g, In g (g_stream s) -> In g (g_chan s).
+Proof.
+  intros s HI HG L g Hg. destruct (HG g Hg) as [H|(w' & wr' & E' & S')]; [exact H|].
+  exfalso. pose proof (free_allquiet s HI L w' wr' E') as Q. unfold quiet in Q. rewrite S' in Q. exact Q.
+Qed.
+
+Lemma g1_same : forall s s', g_stream s' = g_stream s -> g_chan s' = g_chan s ->
+  (forall g, In g (g_stream s) -> In g (g_chan s)) -> G1 s'.
+Proof. intros s s' E1 E2 H f Hf. left. rewrite E2. apply H. rewrite <- E1. exact Hf. Qed.
+
+Lemma writer_g1 : forall s l s', Inv s -> G1 s -> writer_step s l = Some s' -> G1 s'.
+Proof.
+  intros s l s' HI HG H.
+  destruct l as [w|w|w|w|p|k|k|k|k|k|k]; cbn [writer_step] in H; try discriminate H;
+    (destruct (nth_error (g_ws s) w) as [wr|] eqn:Ew; [|discriminate H]);
+    pose proof (i_ws s HI w wr Ew) as Hw; unfold wok in Hw.
+  - destruct (w_st wr) eqn:Est; try discriminate H.
+    destruct (w_todo wr) as [|p rest] eqn:Etodo; [discriminate H|].
+    destruct (lock_free s) eqn:Elf.
+    + pose proof (lock_free_none s (i_locked s HI) Elf) as L.
+      destruct (assign_proj _ _ _ _ H) as [E1 E2].
+      exact (g1_same s s' E1 E2 (g1_free_all_in_chan s HI HG L)).
+    + destruct (find_blocked (g_ws s)); [discriminate H|]. inversion H; subst s'; clear H.
+      intros f Hf. unfold set_w in *. prj. cbn [g_stream] in Hf.
+      destruct (HG f Hf) as [X|(w' & wr' & E' & S')]; [left; exact X|]. right.
+      exists w', wr'. split; [|exact S']. rewrite nth_upd_other; [exact E'|].
+      intros ->. rewrite Ew in E'. inversion E'; subst wr'. rewrite Est in S'. discriminate S'.
+  - destruct (w_st wr) as [| |f ok| |] eqn:Est; try discriminate H.
+    destruct Hw as (L & Hn & Hs & Hc).
+    assert (A : forall g, In g (g_stream s) -> In g (g_chan s)).
+    { apply (g1_all_in_chan s w wr HI HG L Ew). intros f0 X. rewrite Est in X. discriminate X. }
+    destruct ok.
+    + inversion H; subst s'; clear H. intros g Hg. prj. cbn [g_stream] in Hg.
+      destruct (c_eph f).
+      * left. apply A. exact Hg.
+      * apply in_app_or in Hg. destruct Hg as [Hg|[Hg|[]]]; [left; apply A; exact Hg|].
+        subst g. right. exists w, (mkW (WCommitted f) (w_todo wr)).
+        split; [exact (nth_upd_same _ _ _ _ _ Ew)|reflexivity].
+    + destruct (unlock_proj _ _ H) as [E1 E2]. unfold set_w in E1, E2. cbn [g_stream g_chan] in E1, E2.
+      exact (g1_same s s' E1 E2 A).
+  - destruct (w_st wr) as [| | | f |] eqn:Est; try discriminate H.
+    destruct Hw as (L & Hn & Hc). inversion H; subst s'; clear H. intros g Hg. prj. cbn [g_stream] in Hg.
+    left. apply in_or_app. destruct (HG g Hg) as [X|(w' & wr' & E' & S')]; [left; exact X|].
+    destruct (PeanoNat.Nat.eq_dec w w') as [->|D].
+    + rewrite Ew in E'. inversion E'; subst wr'. rewrite Est in S'. inversion S'; subst.
+      right; left; reflexivity.
+    + exfalso. pose proof (others_quiet s w w' wr' HI L D E') as Q. unfold quiet in Q.
+      rewrite S' in Q. exact Q.
+  - destruct (w_st wr) as [| | | | f] eqn:Est; try discriminate H.
+    assert (A : forall g, In g (g_stream s) -> In g (g_chan s)).
+    { apply (g1_all_in_chan s w wr HI HG Hw Ew). intros f0 X. rewrite Est in X. discriminate X. }
+    destruct (unlock_proj _ _ H) as [E1 E2]. unfold set_w in E1, E2. cbn [g_stream g_chan] in E1, E2.
+    exact (g1_same s s' E1 E2 A).
+Qed.
+
+Lemma cstep_g1 : forall s l s', Inv s -> G1 s -> cstep s l = Some s' -> G1 s'.
+Proof.
+  intros s l s' HI HG H. destruct l; cbn [cstep] in H;
+    try exact (writer_g1 _ _ _ HI HG H);
+    try (destruct (follower_set _ _ _ H) as (k' & fl' & E); subst s'; exact HG).
+  unfold poll_step in H. destruct (nth_error (g_ps s) p); [|discriminate H].
+  cbv zeta in H. inversion H; subst s'. exact HG.
+Qed.
+
+Theorem g1 : forall s, reach s -> G1 s.
+Proof.
+  intros s (s0 & sched & I0 & H).
+  assert (A : forall sched s s', Inv s -> G1 s -> crun s sched = Some s' -> G1 s').
+  { clear. induction sched as [|l r IH]; intros s s' HI HG H; cbn [crun] in H.
+    - inversion H; subst; exact HG.
+    - destruct (cstep s l) as [s1|] eqn:E; [|discriminate H].
+      exact (IH s1 s' (cstep_inv s l s1 HI E) (cstep_g1 s l s1 HI HG E) H). }
+  apply (A sched s0 s (init_inv s0 I0)); [|exact H].
+  intros f Hf. left. rewrite (init_stream_chan s0 I0). exact Hf.
+Qed.
+
+(* a committed frame is in the channel or above everything in the channel *)
+Corollary stream_in_chan_or_above : forall s f, reach s -> In f (g_stream s) ->
+  In f (g_chan s) \/ below (c_id f) (g_chan s).
+Proof.
+  intros s f R Hf. destruct (g1 s R f Hf) as [X|(w & wr & E & S)]; [left; exact X|right].
+  pose proof (i_ws s (reach_inv s R) w wr E) as Hw. unfold wok in Hw. rewrite S in Hw. tauto.
+Qed.
+
+(* ------------------------------------------------------------------ *)
+(* more on strictly increasing lists                                  *)
+(* ------------------------------------------------------------------ *)
+
+Lemma inc_cons_inv : forall a l, inc (a :: l) -> inc l /\ Forall (fun x => c_id a < c_id x) l.
+Proof. intros a l H. apply StronglySorted_inv in H. exact H. Qed.
+
+Lemma inc_id_inj : forall l x y, inc l -> In x l -> In y l -> c_id x = c_id y -> x = y.
+Proof.
+  induction l as [|a l IH]; intros x y Hl Hx Hy E; [destruct Hx|].
+  apply inc_cons_inv in Hl. destruct Hl as [Hl Ha]. rewrite Forall_forall in Ha.
+  destruct Hx as [Hx|Hx]; destruct Hy as [Hy|Hy].
+  - congruence.
+  - subst a. specialize (Ha y Hy). lia.
+  - subst a. specialize (Ha x Hx). lia.
+  - exact (IH x y Hl Hx Hy E).
+Qed.
+
+Lemma inc_filter : forall (p : cfr -> bool) l, inc l -> inc (filter p l).
+Proof.
+  intros p l. induction l as [|a l IH]; intros H; [constructor|].
+  apply inc_cons_inv in H. destruct H as [Hl Ha]. cbn [filter]. destruct (p a).
+  - constructor; [exact (IH Hl)|]. apply Forall_filter. exact Ha.
+  - exact (IH Hl).
+Qed.
+
+Lemma inc_ext : forall l1 l2, inc l1 -> inc l2 -> (forall x, In x l1 <-> In x l2) -> l1 = l2.
+Proof.
+  induction l1 as [|a l1 IH]; intros l2 H1 H2 E.
+  - destruct l2 as [|b l2]; [reflexivity|]. exfalso. apply (proj2 (E b)). left; reflexivity.
+  - destruct l2 as [|b l2]; [exfalso; apply (proj1 (E a)); left; reflexivity|].
+    apply inc_cons_inv in H1. destruct H1 as [H1 Ha]. apply inc_cons_inv in H2. destruct H2 as [H2 Hb].
+    rewrite Forall_forall in Ha, Hb.
+    assert (a = b).
+    { destruct (proj1 (E a) (or_introl eq_refl)) as [X|X]; [symmetry; exact X|].
+      destruct (proj2 (E b) (or_introl eq_refl)) as [Y|Y]; [exact Y|].
+      specialize (Ha b Y). specialize (Hb a X). unfold cid_lt in *. lia. }
+    subst b. f_equal. apply (IH l2 H1 H2). intros x. split; intros Hx.
+    + destruct (proj1 (E x) (or_intror Hx)) as [X|X]; [|exact X].
+      subst x. specialize (Ha a Hx). unfold cid_lt in Ha. lia.
+    + destruct (proj2 (E x) (or_intror Hx)) as [X|X]; [|exact X].
+      subst x. specialize (Hb a Hx). unfold cid_lt in Hb. lia.
+Qed.
+
+Lemma inc_snoc_lt : forall l x, inc l -> (forall y, In y l -> c_id y < c_id x) -> inc (l ++ [x]).
+Proof.
+  intros l x Hl H. apply inc_snoc; [exact Hl|]. unfold below. apply Forall_forall. exact H.
+Qed.
+
+Lemma filter_nil : forall (p : cfr -> bool) l, (forall x, In x l -> p x = false) -> filter p l = [].
+Proof. intros p l H. apply filter_none. apply Forall_forall. exact H. Qed.
+
+Lemma filter_ext_in : forall (p q : cfr -> bool) l,
+  (forall x, In x l -> p x = q x) -> filter p l = filter q l.
+Proof.
+  intros p q l. induction l as [|a l IH]; intros H; [reflexivity|]. cbn [filter].
+  rewrite (H a (or_introl eq_refl)), IH; [reflexivity|]. intros x Hx. apply H. right; exact Hx.
+Qed.
+
+Lemma below_In : forall n l x, below n l -> In x l -> c_id x < n.
+Proof. intros n l x H Hx. unfold below in H. rewrite Forall_forall in H. exact (H x Hx). Qed.
+
+Lemma below_not_In : forall l x, below (c_id x) l -> ~ In x l.
+Proof. intros l x H Hx. pose proof (below_In _ _ _ H Hx). lia. Qed.
+
+Lemma inc_nth_inj : forall l i j x, inc l -> nth_error l i = Some x -> nth_error l j = Some x -> i = j.
+Proof.
+  intros l i j x Hl Hi Hj. destruct (PeanoNat.Nat.lt_trichotomy i j) as [L|[L|L]]; [|exact L|].
+  - pose proof (inc_nth_lt l i j x x Hl Hi Hj L). lia.
+  - pose proof (inc_nth_lt l j i x x Hl Hj Hi L). lia.
+Qed.
+
+Lemma inc_nth_le : forall l i j x y, inc l -> nth_error l i = Some x -> nth_error l j = Some y ->
+  c_id x <= c_id y -> (i <= j)%nat.
+Proof.
+  intros l i j x y Hl Hi Hj Hle. destruct (PeanoNat.Nat.le_gt_cases i j) as [L|L]; [exact L|].
+  pose proof (inc_nth_lt l j i y x Hl Hj Hi L). lia.
+Qed.
+
+(* ------------------------------------------------------------------ *)
+(* the main invariant: what has been delivered, phase by phase        *)
+(* ------------------------------------------------------------------ *)
+
+Section MainDef.
+Variables (st ch : list cfr) (o : fopts).
+
+Definition ctxo (f : cfr) : bool := in_scope_c (o_ctx o) f.
+
+(* channel elements below this index have been fully processed by the live task *)
+Definition qp (l : lst) (pos : nat) : nat := match l with LAtRecv _ => pred pos | _ => pos end.
+
+Definition inhand (l : lst) (pos : nat) : Prop :=
+  forall x, l = LAtRecv x -> (0 < pos)%nat /\ nth_error ch (pred pos) = Some x.
+
+Definition peek_ok (pos : nat) (peek : option cfr) (g : cfr) : Prop :=
+  match peek with
+  | Some p => In p st /\ ctxo p = true /\ c_id g < c_id p /\
+              (forall x, In x st -> ctxo x = true -> c_id g < c_id x -> c_id p <= c_id x)
+  | None => forall i x, (i < pos)%nat -> nth_error ch i = Some x -> In x st -> ctxo x = true ->
+                        c_id g < c_id x -> False
+  end.
+
+(* ls = the frames delivered by the live task *)
+Definition LP (q : nat) (last : option N) (ls : list cfr) (complete : Prop) : Prop :=
+  inc ls /\
+  (forall x, In x ls -> exists i, (i < q)%nat /\ nth_error ch i = Some x /\ ctxo x = true /\
+                                  leL last x = false) /\
+  (complete -> forall i x, (i < q)%nat -> nth_error ch i = Some x -> In x st ->
+                           scope_ok o x = true -> leL last x = false -> In x ls).
+
+Definition last_ok (last : option N) : Prop :=
+  match last with
+  | Some l => exists g, In g st /\ c_id g = l /\ scope_ok o g = true
+  | None => True
+  end.
+
+Definition MainV (h : hst) (l : lst) (pos : nat) (peek : option cfr) (last : option N)
+           (sn : list cfr) : Prop :=
+  match h with
+  | HNotStarted => True
+  | HNone => LP (qp l pos) last sn False /\ inhand l pos
+  | HAtSend g =>
+      In g st /\ scope_ok o g = true /\ last = Some (c_id g) /\
+      sn = filter (fun f => scope_ok o f && (c_id f <? c_id g)) st /\ peek_ok pos peek g
+  | HFinished false =>
+      exists g, In g st /\ scope_ok o g = true /\ last = Some (c_id g) /\
+                sn = filter (fun f => scope_ok o f && (c_id f <? c_id g)) st
+  | HAtThreshold | HAtDone | HFinished true =>
+      last_ok last /\
+      exists ls, sn = filter (fun f => scope_ok o f && leL last f) st ++ ls /\
+                 LP (qp l pos) last ls True /\ inhand l pos
+  end.
+End MainDef.
+
+Definition Main (st ch : list cfr) (fl : follower) : Prop :=
+  MainV st ch (fo fl) (f_h fl) (f_l fl) (f_pos fl) (f_peek fl) (f_last fl) (seen fl).
+
+Lemma scope_ok_ctx : forall o f, scope_ok o f = true -> ctxo o f = true.
+Proof. intros o f H. unfold scope_ok in H. apply andb_true_iff in H. exact (proj1 H). Qed.
+
+Lemma qp_le : forall l pos, (qp l pos <= pos)%nat.
+Proof. intros l pos. unfold qp. destruct l; lia. Qed.
+
+(* the environment commits a frame *)
+Lemma main_commit : forall st ch fl f,
+  inc (st ++ [f]) -> below (c_id f) ch -> Main st ch fl -> Main (st ++ [f]) ch fl.
+Proof.
+  intros st ch fl f Hinc Hb H. unfold Main in *.
+  assert (Hab : forall g, In g st -> c_id g < c_id f).
+  { intros g Hg. apply inc_app_above in Hinc. inversion Hinc as [|a l Ha _]; subst.
+    rewrite Forall_forall in Ha. exact (Ha g Hg). }
+  assert (Hnc : forall i, nth_error ch i = Some f -> False).
+  { intros i Hi. apply nth_error_In in Hi. exact (below_not_In ch f Hb Hi). }
+  destruct (f_h fl) as [|g| | |[|]|]; cbn [MainV] in *.
+  - exact I.
+  - destruct H as (Hg & Hs & Hl & Hsn & Hp). split; [apply in_or_app; left; exact Hg|].
+    split; [exact Hs|]. split; [exact Hl|]. split.
+    + rewrite filter_app, Hsn. cbn [filter].
+      assert (X : (c_id f <? c_id g) = false) by (apply N.ltb_ge; specialize (Hab g Hg); lia).
+      rewrite X, andb_false_r, app_nil_r. reflexivity.
+    + unfold peek_ok in *. destruct (f_peek fl) as [p|].
+      * destruct Hp as (P1 & P2 & P3 & P4). split; [apply in_or_app; left; exact P1|].
+        split; [exact P2|]. split; [exact P3|]. intros x Hx Cx Lx.
+        apply in_app_or in Hx. destruct Hx as [Hx|[Hx|[]]]; [exact (P4 x Hx Cx Lx)|].
+        subst x. specialize (Hab p P1). lia.
+      * intros i x Hi Hn Hx Cx Lx. apply in_app_or in Hx. destruct Hx as [Hx|[Hx|[]]].
+        -- exact (Hp i x Hi Hn Hx Cx Lx).
+        -- subst x. exact (Hnc i Hn).
+  - destruct H as (Hlast & ls & Hsn & (L1 & L2 & L3) & Hih).
+    assert (X : leL (f_last fl) f = false).
+    { unfold last_ok in Hlast. destruct (f_last fl) as [l|]; [|reflexivity].
+      destruct Hlast as (g & Hg & El & _). cbn [leL]. apply N.leb_gt. specialize (Hab g Hg). lia. }
+    split.
+    { unfold last_ok in *. destruct (f_last fl) as [l|]; [|exact I].
+      destruct Hlast as (g & Hg & El & Sg). exists g. split; [apply in_or_app; left; exact Hg|]. tauto. }
+    exists ls. split; [|split; [split; [exact L1|split; [exact L2|]]|exact Hih]].
+    + rewrite filter_app, Hsn. cbn [filter]. rewrite X, andb_false_r, app_nil_r. reflexivity.
+    + intros _ i x Hi Hn Hx Sx Lx. apply in_app_or in Hx. destruct Hx as [Hx|[Hx|[]]].
+      * exact (L3 I i x Hi Hn Hx Sx Lx).
+      * subst x. exfalso. exact (Hnc i Hn).
+  - destruct H as (Hlast & ls & Hsn & (L1 & L2 & L3) & Hih).
+    assert (X : leL (f_last fl) f = false).
+    { unfold last_ok in Hlast. destruct (f_last fl) as [l|]; [|reflexivity].
+      destruct Hlast as (g & Hg & El & _). cbn [leL]. apply N.leb_gt. specialize (Hab g Hg). lia. }
+    split.
+    { unfold last_ok in *. destruct (f_last fl) as [l|]; [|exact I].
+      destruct Hlast as (g & Hg & El & Sg). exists g. split; [apply in_or_app; left; exact Hg|]. tauto. }
+    exists ls. split; [|split; [split; [exact L1|split; [exact L2|]]|exact Hih]].
+    + rewrite filter_app, Hsn. cbn [filter]. rewrite X, andb_false_r, app_nil_r. reflexivity.
+    + intros _ i x Hi Hn Hx Sx Lx. apply in_app_or in Hx. destruct Hx as [Hx|[Hx|[]]].
+      * exact (L3 I i x Hi Hn Hx Sx Lx).
+      * subst x. exfalso. exact (Hnc i Hn).
+  - destruct H as (Hlast & ls & Hsn & (L1 & L2 & L3) & Hih).
+    assert (X : leL (f_last fl) f = false).
+    { unfold last_ok in Hlast. destruct (f_last fl) as [l|]; [|reflexivity].
+      destruct Hlast as (g & Hg & El & _). cbn [leL]. apply N.leb_gt. specialize (Hab g Hg). lia. }
+    split.
+    { unfold last_ok in *. destruct (f_last fl) as [l|]; [|exact I].
+      destruct Hlast as (g & Hg & El & Sg). exists g. split; [apply in_or_app; left; exact Hg|]. tauto. }
+    exists ls. split; [|split; [split; [exact L1|split; [exact L2|]]|exact Hih]].
+    + rewrite filter_app, Hsn. cbn [filter]. rewrite X, andb_false_r, app_nil_r. reflexivity.
+    + intros _ i x Hi Hn Hx Sx Lx. apply in_app_or in Hx. destruct Hx as [Hx|[Hx|[]]].
+      * exact (L3 I i x Hi Hn Hx Sx Lx).
+      * subst x. exfalso. exact (Hnc i Hn).
+  - destruct H as (g & Hg & Hs & Hl & Hsn). exists g. split; [apply in_or_app; left; exact Hg|].
+    split; [exact Hs|]. split; [exact Hl|].
+    rewrite filter_app, Hsn. cbn [filter].
+    assert (X : (c_id f <? c_id g) = false) by (apply N.ltb_ge; specialize (Hab g Hg); lia).
+    rewrite X, andb_false_r, app_nil_r. reflexivity.
+  - destruct H as [(L1 & L2 & L3) Hih]. split; [|exact Hih]. split; [exact L1|]. split; [exact L2|].
+    intros [].
+Qed.
+
+Lemma nth_app_lt : forall (ch : list cfr) f i, (i < length ch)%nat ->
+  nth_error (ch ++ [f]) i = nth_error ch i.
+Proof. intros ch f i H. apply nth_error_app1. exact H. Qed.
+
+Lemma LP_bcast : forall st ch o q last ls C f, (q <= length ch)%nat ->
+  LP st ch o q last ls C -> LP st (ch ++ [f]) o q last ls C.
+Proof.
+  intros st ch o q last ls C f Hq (L1 & L2 & L3). split; [exact L1|]. split.
+  - intros x Hx. destruct (L2 x Hx) as (i & Hi & Hn & R). exists i. split; [exact Hi|].
+    split; [|exact R]. apply nth_error_app_some. exact Hn.
+  - intros c i x Hi Hn. rewrite nth_app_lt in Hn by lia. exact (L3 c i x Hi Hn).
+Qed.
+
+Lemma inhand_bcast : forall ch l pos f, (pos <= length ch)%nat ->
+  inhand ch l pos -> inhand (ch ++ [f]) l pos.
+Proof.
+  intros ch l pos f Hp H x E. destruct (H x E) as [A B]. split; [exact A|].
+  apply nth_error_app_some. exact B.
+Qed.
+
+(* the environment broadcasts a frame *)
+Lemma main_bcast : forall st ch fl f,
+  (f_pos fl <= length ch)%nat -> Main st ch fl -> Main st (ch ++ [f]) fl.
+Proof.
+  intros st ch fl f Hp H. unfold Main in *.
+  pose proof (qp_le (f_l fl) (f_pos fl)) as Hq.
+  destruct (f_h fl) as [|g| | |[|]|]; cbn [MainV] in *.
+  - exact I.
+  - destruct H as (Hg & Hs & Hl & Hsn & Hpk). repeat (split; [assumption|]).
+    unfold peek_ok in *. destruct (f_peek fl) as [p|]; [exact Hpk|].
+    intros i x Hi Hn. rewrite nth_app_lt in Hn by lia. exact (Hpk i x Hi Hn).
+  - destruct H as (Hlast & ls & Hsn & HL & Hih). split; [exact Hlast|]. exists ls.
+    split; [exact Hsn|]. split; [apply LP_bcast; [lia|exact HL]|apply inhand_bcast; assumption].
+  - destruct H as (Hlast & ls & Hsn & HL & Hih). split; [exact Hlast|]. exists ls.
+    split; [exact Hsn|]. split; [apply LP_bcast; [lia|exact HL]|apply inhand_bcast; assumption].
+  - destruct H as (Hlast & ls & Hsn & HL & Hih). split; [exact Hlast|]. exists ls.
+    split; [exact Hsn|]. split; [apply LP_bcast; [lia|exact HL]|apply inhand_bcast; assumption].
+  - exact H.
+  - destruct H as [HL Hih]. split; [apply LP_bcast; [lia|exact HL]|apply inhand_bcast; assumption].
+Qed.
+
+Lemma main_grow : forall s s' k fl, reach s -> reach s' -> grow s s' ->
+  nth_error (g_fs s) k = Some fl -> Main (g_stream s) (g_chan s) fl -> Main (g_stream s') (g_chan s') fl.
+Proof.
+  intros s s' k fl R R' G E H. destruct G as [E1 E2|f E1 E2 B1 B2|f E1 E2 B].
+  - rewrite E1, E2. exact H.
+  - rewrite E2. pose proof (i_sinc s' (reach_inv s' R')) as Hi. rewrite E1 in *.
+    apply main_commit; assumption.
+  - rewrite E1, E2. apply main_bcast; [|exact H]. exact (i_fs s (reach_inv s R) k fl E).
+Qed.
+
+(* ---- helper lemmas for the follower's own steps ---- *)
+
+Lemma scope_ok_above : forall o f p, scope_ok o f = true -> ctxo o p = true -> c_id f < c_id p ->
+  scope_ok o p = true.
+Proof.
+  intros o f p Hf Hp Hlt. unfold scope_ok, ctxo in *. apply andb_true_iff in Hf. destruct Hf as [_ Ha].
+  rewrite Hp. cbn [andb]. unfold after_c in *. destruct (o_last o) as [l|]; [|reflexivity].
+  apply N.ltb_lt. apply N.ltb_lt in Ha. lia.
+Qed.
+
+Lemma peek_ok_scan : forall st ch o pos g,
+  peek_ok st ch o pos (scan_next st (o_ctx o) (Some (c_id g))) g.
+Proof.
+  intros st ch o pos g. unfold peek_ok.
+  destruct (scan_next st (o_ctx o) (Some (c_id g))) as [p|] eqn:E.
+  - destruct (scan_next_some _ _ _ _ E) as (A & B & C). unfold sok in B.
+    apply andb_true_iff in B. destruct B as [B1 B2]. cbn [after_c] in B2. apply N.ltb_lt in B2.
+    split; [exact A|]. split; [exact B1|]. split; [exact B2|].
+    intros x Hx Cx Lx. apply (C x Hx). unfold sok. unfold ctxo in Cx. rewrite Cx. cbn [andb after_c].
+    apply N.ltb_lt. exact Lx.
+  - intros i x _ _ Hx Cx Lx. pose proof (scan_next_none _ _ _ E x Hx) as F. unfold sok in F.
+    unfold ctxo in Cx. rewrite Cx in F. cbn [andb after_c] in F. apply N.ltb_ge in F. lia.
+Qed.
+
+Lemma hist_first_filter : forall st o g,
+  (forall x, In x st -> scope_ok o x = true -> c_id g <= c_id x) ->
+  [] = filter (fun f => scope_ok o f && (c_id f <? c_id g)) st.
+Proof.
+  intros st o g H. symmetry. apply filter_nil. intros x Hx.
+  destruct (scope_ok o x) eqn:Sx; [|reflexivity]. cbn [andb]. apply N.ltb_ge. exact (H x Hx Sx).
+Qed.
+
+Lemma hist_next_filter : forall st o f p, inc st -> In f st -> scope_ok o f = true ->
+  In p st -> ctxo o p = true -> c_id f < c_id p ->
+  (forall x, In x st -> ctxo o x = true -> c_id f < c_id x -> c_id p <= c_id x) ->
+  filter (fun x => scope_ok o x && (c_id x <? c_id f)) st ++ [f] =
+  filter (fun x => scope_ok o x && (c_id x <? c_id p)) st.
+Proof.
+  intros st o f p Hi Hf Sf Hp Cp Lfp Hmin. apply inc_ext.
+  - apply inc_snoc_lt; [apply inc_filter; exact Hi|]. intros y Hy. apply filter_In in Hy.
+    destruct Hy as [_ Hy]. apply andb_true_iff in Hy. destruct Hy as [_ Hy]. apply N.ltb_lt in Hy. exact Hy.
+  - apply inc_filter. exact Hi.
+  - intros x. split; intros Hx.
+    + apply filter_In. apply in_app_or in Hx. destruct Hx as [Hx|[Hx|[]]].
+      * apply filter_In in Hx. destruct Hx as [Hx Hy]. split; [exact Hx|].
+        apply andb_true_iff in Hy. destruct Hy as [Hy1 Hy2]. rewrite Hy1. cbn [andb].
+        apply N.ltb_lt. apply N.ltb_lt in Hy2. lia.
+      * subst x. split; [exact Hf|]. rewrite Sf. cbn [andb]. apply N.ltb_lt. exact Lfp.
+    + apply filter_In in Hx. destruct Hx as [Hx Hy]. apply andb_true_iff in Hy. destruct Hy as [Hy1 Hy2].
+      apply N.ltb_lt in Hy2. apply in_or_app.
+      destruct (N.lt_trichotomy (c_id x) (c_id f)) as [L|[L|L]].
+      * left. apply filter_In. split; [exact Hx|]. rewrite Hy1. cbn [andb]. apply N.ltb_lt. exact L.
+      * right. left. symmetry. exact (inc_id_inj st x f Hi Hx Hf L).
+      * exfalso. pose proof (Hmin x Hx (scope_ok_ctx o x Hy1) L). lia.
+Qed.
+
+Lemma hist_last_filter : forall st o f, inc st -> In f st -> scope_ok o f = true ->
+  filter (fun x => scope_ok o x && (c_id x <? c_id f)) st ++ [f] =
+  filter (fun x => scope_ok o x && leL (Some (c_id f)) x) st.
+Proof.
+  intros st o f Hi Hf Sf. apply inc_ext.
+  - apply inc_snoc_lt; [apply inc_filter; exact Hi|]. intros y Hy. apply filter_In in Hy.
+    destruct Hy as [_ Hy]. apply andb_true_iff in Hy. destruct Hy as [_ Hy]. apply N.ltb_lt in Hy. exact Hy.
+  - apply inc_filter. exact Hi.
+  - intros x. cbn [leL]. split; intros Hx.
+    + apply filter_In. apply in_app_or in Hx. destruct Hx as [Hx|[Hx|[]]].
+      * apply filter_In in Hx. destruct Hx as [Hx Hy]. split; [exact Hx|].
+        apply andb_true_iff in Hy. destruct Hy as [Hy1 Hy2]. rewrite Hy1. cbn [andb].
+        apply N.leb_le. apply N.ltb_lt in Hy2. lia.
+      * subst x. split; [exact Hf|]. rewrite Sf. cbn [andb]. apply N.leb_le. lia.
+    + apply filter_In in Hx. destruct Hx as [Hx Hy]. apply andb_true_iff in Hy. destruct Hy as [Hy1 Hy2].
+      apply N.leb_le in Hy2. apply in_or_app.
+      destruct (N.lt_trichotomy (c_id x) (c_id f)) as [L|[L|L]].
+      * left. apply filter_In. split; [exact Hx|]. rewrite Hy1. cbn [andb]. apply N.ltb_lt. exact L.
+      * right. left. symmetry. exact (inc_id_inj st x f Hi Hx Hf L).
+      * exfalso. lia.
+Qed.
+
+Lemma LP_nil : forall st ch o q last (C : Prop),
+  (C -> forall i x, (i < q)%nat -> nth_error ch i = Some x -> In x st -> scope_ok o x = true ->
+        leL last x = false -> False) ->
+  LP st ch o q last [] C.
+Proof.
+  intros st ch o q last C H. split; [constructor|]. split; [intros x []|].
+  intros c i x Hi Hn Hx Sx Lx. exfalso. exact (H c i x Hi Hn Hx Sx Lx).
+Qed.
+
+Lemma LP_skip : forall st ch o pos last ls C f, (0 < pos)%nat ->
+  nth_error ch (pred pos) = Some f ->
+  negb (ctxo o f) || leL last f = true ->
+  LP st ch o (pred pos) last ls C -> LP st ch o pos last ls C.
+Proof.
+  intros st ch o pos last ls C f Hpos Hf Hc (L1 & L2 & L3). split; [exact L1|]. split.
+  - intros x Hx. destruct (L2 x Hx) as (i & Hi & R). exists i. split; [lia|exact R].
+  - intros c i x Hi Hn Hx Sx Lx.
+    destruct (PeanoNat.Nat.eq_dec i (pred pos)) as [->|D].
+    + rewrite Hf in Hn. inversion Hn; subst x. rewrite (scope_ok_ctx o f Sx), Lx in Hc. discriminate Hc.
+    + apply (L3 c i x); try assumption. lia.
+Qed.
+
+Lemma LP_deliver : forall st ch o pos last ls C f, inc ch -> (0 < pos)%nat ->
+  nth_error ch (pred pos) = Some f -> ctxo o f = true -> leL last f = false ->
+  LP st ch o (pred pos) last ls C -> LP st ch o pos last (ls ++ [f]) C.
+Proof.
+  intros st ch o pos last ls C f Hch Hpos Hf Cf Lf (L1 & L2 & L3). split; [|split].
+  - apply inc_snoc_lt; [exact L1|]. intros y Hy. destruct (L2 y Hy) as (i & Hi & Hn & _).
+    apply (inc_nth_lt ch i (pred pos) y f Hch Hn Hf). exact Hi.
+  - intros x Hx. apply in_app_or in Hx. destruct Hx as [Hx|[Hx|[]]].
+    + destruct (L2 x Hx) as (i & Hi & R). exists i. split; [lia|exact R].
+    + subst x. exists (pred pos). split; [lia|]. split; [exact Hf|]. split; assumption.
+  - intros c i x Hi Hn Hx Sx Lx. apply in_or_app.
+    destruct (PeanoNat.Nat.eq_dec i (pred pos)) as [->|D].
+    + rewrite Hf in Hn. inversion Hn; subst x. right; left; reflexivity.
+    + left. apply (L3 c i x); try assumption. lia.
+Qed.
+
+Lemma mainv_set_l : forall st ch o h l l' pos peek last sn,
+  qp l pos = qp l' pos -> (forall x, l' <> LAtRecv x) ->
+  MainV st ch o h l pos peek last sn -> MainV st ch o h l' pos peek last sn.
+Proof.
+  intros st ch o h l l' pos peek last sn Hq Hl H.
+  assert (Hih : inhand ch l' pos) by (intros x E; exfalso; exact (Hl x E)).
+  destruct h as [|g| | |[|]|]; cbn [MainV] in *; try exact H.
+  - destruct H as (A & ls & B & C & _). split; [exact A|]. exists ls. rewrite <- Hq. tauto.
+  - destruct H as (A & ls & B & C & _). split; [exact A|]. exists ls. rewrite <- Hq. tauto.
+  - destruct H as (A & ls & B & C & _). split; [exact A|]. exists ls. rewrite <- Hq. tauto.
+  - destruct H as (A & _). rewrite <- Hq. tauto.
+Qed.
+
+Lemma sok_scope : forall o f, sok (o_ctx o) (o_last o) f = scope_ok o f.
+Proof. reflexivity. Qed.
+
+Lemma main_step : forall s k fl fl', reach s -> nth_error (g_fs s) k = Some fl ->
+  fstep s fl fl' -> Main (g_stream s) (g_chan s) fl -> Main (g_stream s) (g_chan s) fl'.
+Proof.
+  intros s k fl fl' R E St H.
+  pose proof (shape s k fl R E) as (Sex & Shb & Sln & Hh).
+  pose proof (i_sinc s (reach_inv s R)) as Hst. pose proof (i_cinc s (reach_inv s R)) as Hch.
+  set (st := g_stream s) in *. set (ch := g_chan s) in *.
+  inversion St; subst fl'; clear St; unfold Main in *.
+  - (* subscribe *)
+    fprj. destruct (f_h fl) as [| | | |[|]|]; cbn [MainV]; try exact I; split_all; congruence.
+  - (* start, tail *)
+    fprj. rewrite seen_start_tail. cbn [MainV]. split.
+    + apply LP_nil. intros [].
+    + intros x Ex. destruct (o_follow (fo fl)); discriminate Ex.
+  - (* start *)
+    rewrite H1 in Hh. cbv beta iota in Hh. destruct Hh as (_ & _ & _ & _ & _ & Hcur).
+    specialize (Hcur H0).
+    destruct (hadv_cases s (start_fl s fl)) as [(g & Ep & _ & ->)|[(g & Ep & _ & ->)|(Ep & ->)]];
+      fprj; fprj_in Ep; rewrite Hcur in Ep; fold st in Ep;
+      (change (seen _) with (@nil cfr)); cbn [MainV].
+    + destruct (scan_next_some _ _ _ _ Ep) as (A & B & C). rewrite sok_scope in B.
+      exists g. split; [exact A|]. split; [exact B|]. split; [reflexivity|].
+      apply hist_first_filter. intros x Hx Sx. apply (C x Hx). exact Sx.
+    + destruct (scan_next_some _ _ _ _ Ep) as (A & B & C). rewrite sok_scope in B.
+      split; [exact A|]. split; [exact B|]. split; [reflexivity|]. split.
+      * apply hist_first_filter. intros x Hx Sx. apply (C x Hx). exact Sx.
+      * apply peek_ok_scan.
+    + split; [exact I|]. exists []. split; [|split].
+      * rewrite app_nil_r. symmetry. apply filter_nil. intros x _. cbn [leL]. apply andb_false_r.
+      * apply LP_nil. intros _ i x _ _ Hx Sx _.
+        pose proof (scan_next_none _ _ _ Ep x Hx) as F. rewrite sok_scope in F. congruence.
+      * intros x Ex. destruct (o_follow (fo fl)); discriminate Ex.
+  - (* history send *)
+    rewrite H0 in H, Hh. cbn [MainV] in H. cbv beta iota in Hh.
+    destruct H as (Hg & Hs & Hl & Hsn & Hpk). destruct Hh as (Hfl & _ & _).
+    destruct (hadv_cases s (bump (push fl (IReal f)))) as [(g & Ep & _ & ->)|[(g & Ep & _ & ->)|(Ep & ->)]];
+      fprj; fprj_in Ep; rewrite Ep in Hpk; unfold peek_ok in Hpk;
+      match goal with |- context [seen ?x] => change (seen x) with (seen (push fl (IReal f))) end;
+      rewrite seen_push_real, Hsn; cbn [MainV].
+    + destruct Hpk as (P1 & P2 & P3 & P4). exists g. split; [exact P1|].
+      split; [exact (scope_ok_above _ _ _ Hs P2 P3)|]. split; [reflexivity|].
+      apply hist_next_filter; assumption.
+    + destruct Hpk as (P1 & P2 & P3 & P4). split; [exact P1|].
+      split; [exact (scope_ok_above _ _ _ Hs P2 P3)|]. split; [reflexivity|]. split.
+      * apply hist_next_filter; assumption.
+      * apply peek_ok_scan.
+    + rewrite Hl. split; [exists f; tauto|]. exists []. split; [|split].
+      * rewrite app_nil_r. apply hist_last_filter; assumption.
+      * apply LP_nil. intros _ i x Hi Hn' Hx Sx Lx. cbn [leL] in Lx. apply N.leb_gt in Lx.
+        apply (Hpk i x); try assumption.
+        -- pose proof (qp_le (f_l fl) (f_pos fl)). lia.
+        -- exact (scope_ok_ctx _ _ Sx).
+      * intros x Ex. destruct Hfl as [X|X]; rewrite X in Ex; discriminate Ex.
+  - (* threshold, pushed *)
+    fprj. rewrite seen_set_h, seen_push_thr. rewrite H0 in H. exact H.
+  - (* threshold, not pushed *)
+    fprj. rewrite seen_set_h. rewrite H0 in H. exact H.
+  - (* hand-off, live task exits *)
+    fprj. rewrite seen_exit, seen_handoff. rewrite H0, H1 in H.
+    apply (mainv_set_l st ch (fo fl) (HFinished true) LWaiting LExited); [reflexivity|discriminate|exact H].
+  - (* hand-off *)
+    fprj. rewrite seen_handoff. rewrite H0 in H. exact H.
+  - (* lagged *)
+    fprj. rewrite seen_exit.
+    apply (mainv_set_l st ch (fo fl) (f_h fl) (f_l fl) LExited); [|discriminate|exact H].
+    destruct H0 as [[El _]|El]; rewrite El; reflexivity.
+  - (* receive *)
+    fprj. rewrite seen_recv.
+    assert (Q : qp (f_l fl) (f_pos fl) = f_pos fl) by (destruct H0 as [[El _]|El]; rewrite El; reflexivity).
+    assert (Hih : inhand ch (LAtRecv f) (S (f_pos fl))).
+    { intros x Ex. inversion Ex; subst x. split; [lia|exact H2]. }
+    destruct (f_h fl) as [|g| | |[|]|] eqn:Eh; cbn [MainV] in *; cbn [qp pred]; try exact I; try exact H.
+    + exfalso. destruct H0 as [[El X]|El]; [congruence|]. destruct Hh as ([X|X] & _); congruence.
+    + destruct H as (A & ls & B & C & _). split; [exact A|]. exists ls. rewrite Q in C. tauto.
+    + destruct H as (A & ls & B & C & _). split; [exact A|]. exists ls. rewrite Q in C. tauto.
+    + destruct H as (A & ls & B & C & _). split; [exact A|]. exists ls. rewrite Q in C. tauto.
+    + destruct H as (A & _). rewrite Q in A. tauto.
+  - (* skip *)
+    fprj. rewrite seen_set_l. rewrite H0 in H.
+    assert (Hih : inhand ch LRecvWait (f_pos fl)) by (intros x Ex; discriminate Ex).
+    destruct (f_h fl) as [|g| | |[|]|] eqn:Eh; cbn [MainV qp] in *; try exact I; try exact H.
+    + destruct H as (A & ls & B & C & D). destruct (D f eq_refl) as [D1 D2].
+      split; [exact A|]. exists ls. split; [exact B|]. split; [|exact Hih].
+      exact (LP_skip _ _ _ _ _ _ _ f D1 D2 H1 C).
+    + destruct H as (A & ls & B & C & D). destruct (D f eq_refl) as [D1 D2].
+      split; [exact A|]. exists ls. split; [exact B|]. split; [|exact Hih].
+      exact (LP_skip _ _ _ _ _ _ _ f D1 D2 H1 C).
+    + destruct H as (A & ls & B & C & D). destruct (D f eq_refl) as [D1 D2].
+      split; [exact A|]. exists ls. split; [exact B|]. split; [|exact Hih].
+      exact (LP_skip _ _ _ _ _ _ _ f D1 D2 H1 C).
+    + destruct H as (C & D). destruct (D f eq_refl) as [D1 D2]. split; [|exact Hih].
+      exact (LP_skip _ _ _ _ _ _ _ f D1 D2 H1 C).
+  - (* deliver *)
+    fprj. rewrite seen_set_l, seen_push_real. rewrite H0 in H, Hh.
+    assert (Hih : inhand ch LAtSent (f_pos fl)) by (intros x Ex; discriminate Ex).
+    destruct (f_h fl) as [|g| | |[|]|] eqn:Eh; cbn [MainV qp] in *; try exact I.
+    + exfalso. destruct Hh as ([X|X] & _); discriminate X.
+    + exfalso. destruct Hh as ([X|X] & _); discriminate X.
+    + exfalso. destruct Hh as ([X|X] & _); discriminate X.
+    + destruct H as (A & ls & B & C & D). destruct (D f eq_refl) as [D1 D2].
+      split; [exact A|]. exists (ls ++ [f]). split; [rewrite B; apply app_assoc_reverse|]. split; [|exact Hih].
+      exact (LP_deliver _ _ _ _ _ _ _ f Hch D1 D2 H1 H2 C).
+    + exfalso. destruct Hh as ([X|X] & _); discriminate X.
+    + destruct H as (C & D). destruct (D f eq_refl) as [D1 D2]. split; [|exact Hih].
+      exact (LP_deliver _ _ _ _ _ _ _ f Hch D1 D2 H1 H2 C).
+  - (* sent, limited *)
+    fprj. rewrite seen_sent.
+    apply (mainv_set_l st ch (fo fl) (f_h fl) (f_l fl)); [| |exact H].
+    + rewrite H0. destruct (n <=? f_lcount fl + 1); reflexivity.
+    + intros x. destruct (n <=? f_lcount fl + 1); discriminate.
+  - (* sent *)
+    fprj. rewrite seen_set_l.
+    apply (mainv_set_l st ch (fo fl) (f_h fl) (f_l fl)); [|discriminate|exact H].
+    rewrite H0. reflexivity.
+  - (* pulse *)
+    fprj. rewrite seen_push_pulse. exact H.
+  - (* consume *)
+    fprj. rewrite (seen_consume fl i r H0). exact H.
+Qed.
+
+Theorem main_inv : forall s k fl, reach s -> nth_error (g_fs s) k = Some fl ->
+  Main (g_stream s) (g_chan s) fl.
+Proof.
+  apply (follower_ind (fun s fl => Main (g_stream s) (g_chan s) fl)).
+  - intros s o _. exact I.
+  - exact main_grow.
+  - intros s s' k fl fl' R R' E1 E2 E St H. rewrite E1, E2. exact (main_step s k fl fl' R E St H).
+Qed.
+
+(* ------------------------------------------------------------------ *)
+(* F1: delivered frames are strictly increasing                       *)
+(* ------------------------------------------------------------------ *)
+
+Lemma hs_ls_inc : forall st o last ls,
+  inc st -> inc ls -> (forall x, In x ls -> leL last x = false) ->
+  inc (filter (fun f => scope_ok o f && leL last f) st ++ ls).
+Proof.
+  intros st o last ls Hst Hls Hle. apply inc_app. split; [apply inc_filter; exact Hst|].
+  split; [exact Hls|]. apply Forall_forall. intros a Ha. apply Forall_forall. intros b Hb.
+  apply filter_In in Ha. destruct Ha as [_ Ha]. apply andb_true_iff in Ha. destruct Ha as [_ Ha].
+  specialize (Hle b Hb). unfold leL in *. destruct last as [l|]; [|discriminate Ha].
+  apply N.leb_le in Ha. apply N.leb_gt in Hle. unfold cid_lt. lia.
+Qed.
+
+Theorem seen_increasing : forall s k fl, reach s -> nth_error (g_fs s) k = Some fl -> inc (seen fl).
+Proof.
+  intros s k fl R E. pose proof (main_inv s k fl R E) as H.
+  pose proof (shape s k fl R E) as (_ & _ & _ & Hh).
+  pose proof (i_sinc s (reach_inv s R)) as Hst. unfold Main in H.
+  destruct (f_h fl) as [|g| | |[|]|]; cbn [MainV] in H.
+  - destruct Hh as (_ & _ & Hi & _). rewrite seen_items, Hi. constructor.
+  - destruct H as (_ & _ & _ & -> & _). apply inc_filter. exact Hst.
+  - destruct H as (_ & ls & -> & (L1 & L2 & _) & _). apply hs_ls_inc; try assumption.
+    intros x Hx. destruct (L2 x Hx) as (i & _ & _ & _ & X). exact X.
+  - destruct H as (_ & ls & -> & (L1 & L2 & _) & _). apply hs_ls_inc; try assumption.
+    intros x Hx. destruct (L2 x Hx) as (i & _ & _ & _ & X). exact X.
+  - destruct H as (_ & ls & -> & (L1 & L2 & _) & _). apply hs_ls_inc; try assumption.
+    intros x Hx. destruct (L2 x Hx) as (i & _ & _ & _ & X). exact X.
+  - destruct H as (g & _ & _ & _ & ->). apply inc_filter. exact Hst.
+  - destruct H as ((L1 & _) & _). exact L1.
+Qed.
+
+(* no duplicate, as a corollary *)
+Corollary seen_nodup : forall s k fl, reach s -> nth_error (g_fs s) k = Some fl -> NoDup (seen fl).
+Proof.
+  intros s k fl R E. pose proof (seen_increasing s k fl R E) as H.
+  induction H as [|a l Hl IH Ha]; constructor; [|exact IH].
+  intros X. rewrite Forall_forall in Ha. specialize (Ha a X). unfold cid_lt in Ha. lia.
+Qed.
+
+(* ------------------------------------------------------------------ *)
+(* F2: delivered frames are in scope                                  *)
+(* ------------------------------------------------------------------ *)
+
+Lemma Forall_app_intro : forall (P : cfr -> Prop) a b, Forall P a -> Forall P b -> Forall P (a ++ b).
+Proof. intros P a b Ha Hb. apply Forall_app. split; assumption. Qed.
+
+Lemma hs_ctx : forall st o (p : cfr -> bool),
+  Forall (fun f => in_scope_c (o_ctx o) f = true) (filter (fun f => scope_ok o f && p f) st).
+Proof.
+  intros st o p. apply Forall_forall. intros x Hx. apply filter_In in Hx. destruct Hx as [_ Hx].
+  apply andb_true_iff in Hx. destruct Hx as [Hx _]. exact (scope_ok_ctx o x Hx).
+Qed.
+
+Lemma hs_after : forall st o (p : cfr -> bool),
+  Forall (fun f => after_c (o_last o) f = true) (filter (fun f => scope_ok o f && p f) st).
+Proof.
+  intros st o p. apply Forall_forall. intros x Hx. apply filter_In in Hx. destruct Hx as [_ Hx].
+  apply andb_true_iff in Hx. destruct Hx as [Hx _]. unfold scope_ok in Hx.
+  apply andb_true_iff in Hx. exact (proj2 Hx).
+Qed.
+
+Lemma ls_ctx : forall st ch o q last ls C, LP st ch o q last ls C ->
+  Forall (fun f => in_scope_c (o_ctx o) f = true) ls.
+Proof.
+  intros st ch o q last ls C (_ & L2 & _). apply Forall_forall. intros x Hx.
+  destruct (L2 x Hx) as (i & _ & _ & X & _). exact X.
+Qed.
+
+Theorem seen_in_scope : forall s k fl, reach s -> nth_error (g_fs s) k = Some fl ->
+  Forall (fun f => in_scope_c (o_ctx (fo fl)) f = true) (seen fl).
+Proof.
+  intros s k fl R E. pose proof (main_inv s k fl R E) as H.
+  pose proof (shape s k fl R E) as (_ & _ & _ & Hh). unfold Main in H.
+  destruct (f_h fl) as [|g| | |[|]|]; cbn [MainV] in H.
+  - destruct Hh as (_ & _ & Hi & _). rewrite seen_items, Hi. constructor.
+  - destruct H as (_ & _ & _ & -> & _). apply hs_ctx.
+  - destruct H as (_ & ls & -> & L & _). apply Forall_app_intro; [apply hs_ctx|exact (ls_ctx _ _ _ _ _ _ _ L)].
+  - destruct H as (_ & ls & -> & L & _). apply Forall_app_intro; [apply hs_ctx|exact (ls_ctx _ _ _ _ _ _ _ L)].
+  - destruct H as (_ & ls & -> & L & _). apply Forall_app_intro; [apply hs_ctx|exact (ls_ctx _ _ _ _ _ _ _ L)].
+  - destruct H as (g & _ & _ & _ & ->). apply hs_ctx.
+  - destruct H as (L & _). exact (ls_ctx _ _ _ _ _ _ _ L).
+Qed.
+
+Lemma ls_after : forall st ch o q l ls C, LP st ch o q (Some l) ls C -> last_ok st o (Some l) ->
+  Forall (fun f => after_c (o_last o) f = true) ls.
+Proof.
+  intros st ch o q l ls C (_ & L2 & _) (g & _ & El & Sg). apply Forall_forall. intros x Hx.
+  destruct (L2 x Hx) as (i & _ & _ & _ & X). cbn [leL] in X. apply N.leb_gt in X.
+  unfold scope_ok in Sg. apply andb_true_iff in Sg. destruct Sg as [_ Sg]. unfold after_c in *.
+  destruct (o_last o) as [a|]; [|reflexivity]. apply N.ltb_lt. apply N.ltb_lt in Sg. lia.
+Qed.
+
+(* for a non-tail follower whose history thread handed over an id; when the history is
+   empty the hand-off carries no id and the live task does not compare with last-id:
+   see future_last_id_not_filtered_live *)
+Theorem seen_after_last : forall s k fl, reach s -> nth_error (g_fs s) k = Some fl ->
+  o_tail (fo fl) = false -> f_last fl <> None ->
+  Forall (fun f => after_c (o_last (fo fl)) f = true) (seen fl).
+Proof.
+  intros s k fl R E Ht Hl. pose proof (main_inv s k fl R E) as H.
+  pose proof (shape s k fl R E) as (_ & _ & _ & Hh). unfold Main in H.
+  destruct (f_last fl) as [l|] eqn:El; [clear Hl|contradiction Hl; reflexivity].
+  destruct (f_h fl) as [|g| | |[|]|]; cbn [MainV] in H.
+  - destruct Hh as (_ & _ & Hi & _). rewrite seen_items, Hi. constructor.
+  - destruct H as (_ & _ & _ & -> & _). apply hs_after.
+  - destruct H as (A & ls & -> & L & _). apply Forall_app_intro; [apply hs_after|exact (ls_after _ _ _ _ _ _ _ L A)].
+  - destruct H as (A & ls & -> & L & _). apply Forall_app_intro; [apply hs_after|exact (ls_after _ _ _ _ _ _ _ L A)].
+  - destruct H as (A & ls & -> & L & _). apply Forall_app_intro; [apply hs_after|exact (ls_after _ _ _ _ _ _ _ L A)].
+  - destruct H as (g & _ & _ & _ & ->). apply hs_after.
+  - destruct Hh as (X & _). congruence.
+Qed.
+
+(* the two together, in the form asked for *)
+Corollary seen_scope_ok : forall s k fl, reach s -> nth_error (g_fs s) k = Some fl ->
+  o_tail (fo fl) = false -> f_last fl <> None ->
+  Forall (fun f => scope_ok (fo fl) f = true) (seen fl).
+Proof.
+  intros s k fl R E Ht Hl. pose proof (seen_in_scope s k fl R E) as A.
+  pose proof (seen_after_last s k fl R E Ht Hl) as B. rewrite Forall_forall in *.
+  intros x Hx. unfold scope_ok. rewrite (A x Hx), (B x Hx). reflexivity.
+Qed.
+
+(* ------------------------------------------------------------------ *)
+(* F3: delivered frames are visible                                   *)
+(* ------------------------------------------------------------------ *)
+
+Definition visible (s : cstate) (fl : follower) (f : cfr) : Prop :=
+  In f (g_stream s) \/ exists i, (i < f_pos fl)%nat /\ nth_error (g_chan s) i = Some f.
+
+Lemma hs_visible : forall s fl (p : cfr -> bool),
+  Forall (visible s fl) (filter p (g_stream s)).
+Proof.
+  intros s fl p. apply Forall_forall. intros x Hx. apply filter_In in Hx. left. exact (proj1 Hx).
+Qed.
+
+Lemma ls_visible : forall s fl ls C,
+  LP (g_stream s) (g_chan s) (fo fl) (qp (f_l fl) (f_pos fl)) (f_last fl) ls C ->
+  Forall (visible s fl) ls.
+Proof.
+  intros s fl ls C (_ & L2 & _). apply Forall_forall. intros x Hx.
+  destruct (L2 x Hx) as (i & Hi & Hn & _). right. exists i. split; [|exact Hn].
+  pose proof (qp_le (f_l fl) (f_pos fl)). lia.
+Qed.
+
+Theorem seen_visible_strong : forall s k fl, reach s -> nth_error (g_fs s) k = Some fl ->
+  Forall (visible s fl) (seen fl).
+Proof.
+  intros s k fl R E. pose proof (main_inv s k fl R E) as H.
+  pose proof (shape s k fl R E) as (_ & _ & _ & Hh). unfold Main in H.
+  destruct (f_h fl) as [|g| | |[|]|]; cbn [MainV] in H.
+  - destruct Hh as (_ & _ & Hi & _). rewrite seen_items, Hi. constructor.
+  - destruct H as (_ & _ & _ & -> & _). apply hs_visible.
+  - destruct H as (A & ls & -> & L & _). apply Forall_app_intro; [apply hs_visible|exact (ls_visible _ _ _ _ L)].
+  - destruct H as (A & ls & -> & L & _). apply Forall_app_intro; [apply hs_visible|exact (ls_visible _ _ _ _ L)].
+  - destruct H as (A & ls & -> & L & _). apply Forall_app_intro; [apply hs_visible|exact (ls_visible _ _ _ _ L)].
+  - destruct H as (g & _ & _ & _ & ->). apply hs_visible.
+  - destruct H as (L & _). exact (ls_visible _ _ _ _ L).
+Qed.
+
+Theorem seen_visible : forall s k fl, reach s -> nth_error (g_fs s) k = Some fl ->
+  Forall (fun f => In f (g_stream s) \/ In f (g_chan s)) (seen fl).
+Proof.
+  intros s k fl R E. eapply Forall_impl; [|exact (seen_visible_strong s k fl R E)].
+  intros f [H|(i & _ & H)]; [left; exact H|right; exact (nth_error_In _ _ H)].
+Qed.
+
+(* ------------------------------------------------------------------ *)
+(* F4: gap-freedom for stored frames                                  *)
+(* ------------------------------------------------------------------ *)
+
+Lemma no_gap_hist : forall st o b g h,
+  In g st -> scope_ok o g = true -> c_id g <= c_id h ->
+  In h (filter (fun f => scope_ok o f && (c_id f <? b)) st) ->
+  In g (filter (fun f => scope_ok o f && (c_id f <? b)) st).
+Proof.
+  intros st o b g h Hg Sg Hle Hh. apply filter_In in Hh. destruct Hh as [_ Hh].
+  apply andb_true_iff in Hh. destruct Hh as [_ Hh]. apply N.ltb_lt in Hh.
+  apply filter_In. split; [exact Hg|]. rewrite Sg. cbn [andb]. apply N.ltb_lt. lia.
+Qed.
+
+Lemma no_gap_post : forall s fl ls g h, reach s ->
+  LP (g_stream s) (g_chan s) (fo fl) (qp (f_l fl) (f_pos fl)) (f_last fl) ls True ->
+  In g (g_stream s) -> scope_ok (fo fl) g = true -> c_id g <= c_id h ->
+  In h (filter (fun f => scope_ok (fo fl) f && leL (f_last fl) f) (g_stream s) ++ ls) ->
+  In g (filter (fun f => scope_ok (fo fl) f && leL (f_last fl) f) (g_stream s) ++ ls).
+Proof.
+  intros s fl ls g h R (L1 & L2 & L3) Hg Sg Hle Hh. apply in_or_app.
+  destruct (leL (f_last fl) g) eqn:Lg.
+  - left. apply filter_In. split; [exact Hg|]. rewrite Sg, Lg. reflexivity.
+  - right. apply in_app_or in Hh. destruct Hh as [Hh|Hh].
+    + exfalso. apply filter_In in Hh. destruct Hh as [_ Hh]. apply andb_true_iff in Hh.
+      destruct Hh as [_ Hh]. unfold leL in *. destruct (f_last fl) as [l|]; [|discriminate Hh].
+      apply N.leb_le in Hh. apply N.leb_gt in Lg. lia.
+    + destruct (L2 h Hh) as (i & Hi & Hn & _).
+      pose proof (i_cinc s (reach_inv s R)) as Hch.
+      destruct (stream_in_chan_or_above s g R Hg) as [Hc|Hc].
+      * apply In_nth_error in Hc. destruct Hc as [j Hj].
+        pose proof (inc_nth_le _ j i g h Hch Hj Hn Hle) as Hji.
+        apply (L3 I j g); try assumption. lia.
+      * exfalso. pose proof (below_In _ _ _ Hc (nth_error_In _ _ Hn)). lia.
+Qed.
+
+Theorem no_gap : forall s k fl, reach s -> nth_error (g_fs s) k = Some fl ->
+  o_tail (fo fl) = false ->
+  forall g h, In g (g_stream s) -> scope_ok (fo fl) g = true -> In h (seen fl) ->
+              c_id g <= c_id h -> In g (seen fl).
+Proof.
+  intros s k fl R E Ht g h Hg Sg Hh Hle. pose proof (main_inv s k fl R E) as H.
+  pose proof (shape s k fl R E) as (_ & _ & _ & Hsh). unfold Main in H.
+  destruct (f_h fl) as [|g0| | |[|]|]; cbn [MainV] in H.
+  - destruct Hsh as (_ & _ & Hi & _). rewrite seen_items, Hi in Hh. destruct Hh.
+  - destruct H as (_ & _ & _ & X & _). rewrite X in *. exact (no_gap_hist _ _ _ g h Hg Sg Hle Hh).
+  - destruct H as (_ & ls & X & L & _). rewrite X in *. exact (no_gap_post s fl ls g h R L Hg Sg Hle Hh).
+  - destruct H as (_ & ls & X & L & _). rewrite X in *. exact (no_gap_post s fl ls g h R L Hg Sg Hle Hh).
+  - destruct H as (_ & ls & X & L & _). rewrite X in *. exact (no_gap_post s fl ls g h R L Hg Sg Hle Hh).
+  - destruct H as (g0 & _ & _ & _ & X). rewrite X in *. exact (no_gap_hist _ _ _ g h Hg Sg Hle Hh).
+  - destruct Hsh as (X & _). congruence.
+Qed.
+
+(* ------------------------------------------------------------------ *)
+(* F5: tail followers get no history                                  *)
+(* ------------------------------------------------------------------ *)
+
+Theorem tail_no_history : forall s k fl, reach s -> nth_error (g_fs s) k = Some fl ->
+  o_tail (fo fl) = true ->
+  (f_h fl = HNotStarted \/ f_h fl = HNone) /\ f_count fl = 0 /\ f_last fl = None /\
+  Forall (fun f => exists i, (i < f_pos fl)%nat /\ nth_error (g_chan s) i = Some f) (seen fl).
+Proof.
+  intros s k fl R E Ht. pose proof (main_inv s k fl R E) as H.
+  pose proof (shape s k fl R E) as (_ & _ & _ & Hsh). unfold Main in H.
+  destruct (f_h fl) as [|g0| | |[|]|]; cbn [MainV] in H; cbv beta iota in Hsh;
+    try (exfalso; destruct Hsh as (_ & X & _); congruence);
+    try (exfalso; destruct Hsh as (X & _); congruence).
+  - destruct Hsh as (_ & _ & Hi & Hc & Hl & _).
+    split; [left; reflexivity|]. split; [assumption|]. split; [assumption|].
+    rewrite seen_items, Hi. constructor.
+  - exfalso. destruct Hsh as (_ & _ & X & _). congruence.
+  - destruct Hsh as (_ & _ & Hl & Hc & _). destruct H as ((_ & L2 & _) & _).
+    split; [right; reflexivity|]. split; [assumption|]. split; [assumption|].
+    apply Forall_forall. intros x Hx. destruct (L2 x Hx) as (i & Hi & Hn & _).
+    exists i. split; [|exact Hn]. pose proof (qp_le (f_l fl) (f_pos fl)). lia.
+Qed.
+
+(* ------------------------------------------------------------------ *)
+(* F6: the threshold marker                                           *)
+(* ------------------------------------------------------------------ *)
+
+Definition leB (L : option N) (a : cfr) : Prop :=
+  match L with Some l => c_id a <= l | None => False end.
+Definition gtB (L : option N) (b : cfr) : Prop :=
+  match L with Some l => l < c_id b | None => True end.
+Definition noT (l : list item) : Prop := ~ In IThreshold l.
+
+Definition split_at_threshold (last : option N) (its : list item) : Prop :=
+  exists pre post, its = pre ++ IThreshold :: post /\ noT pre /\ noT post /\
+                   (forall a, In a (reals pre) -> leB last a) /\
+                   (forall b, In b (reals post) -> gtB last b).
+
+Definition ThrV (o : fopts) (h : hst) (last : option N) (its : list item) : Prop :=
+  match h with
+  | HNotStarted => its = []
+  | HNone | HFinished false => noT its
+  | HAtSend g => noT its /\ forall a, In a (reals its) -> c_id a < c_id g
+  | HAtThreshold => noT its /\ forall a, In a (reals its) -> leB last a
+  | HAtDone | HFinished true =>
+      (noT its /\ wants_threshold o = false) \/ split_at_threshold last its
+  end.
+
+Definition Thr (fl : follower) : Prop := ThrV (fo fl) (f_h fl) (f_last fl) (items fl).
+
+Definition real_ok (h : hst) (last : option N) (f : cfr) : Prop :=
+  match h with
+  | HNotStarted => False
+  | HAtSend g => c_id f < c_id g
+  | HAtThreshold => leB last f
+  | HAtDone | HFinished true => gtB last f
+  | _ => True
+  end.
+
+Lemma noT_app : forall a b, noT a -> noT b -> noT (a ++ b).
+Proof. intros a b Ha Hb H. apply in_app_or in H. destruct H; [exact (Ha H)|exact (Hb H)]. Qed.
+
+Lemma noT_single : forall i, i <> IThreshold -> noT [i].
+Proof. intros i Hi [H|[]]. exact (Hi H). Qed.
+
+Lemma reals_single_in : forall i f, In f (reals [i]) -> i = IReal f.
+Proof.
+  intros i f H. destruct i; cbn in H; try (destruct H; fail). destruct H as [H|[]]. subst. reflexivity.
+Qed.
+
+Lemma thrv_app : forall o h last its i,
+  i <> IThreshold -> h <> HNotStarted -> (forall f, i = IReal f -> real_ok h last f) ->
+  ThrV o h last its -> ThrV o h last (its ++ [i]).
+Proof.
+  intros o h last its i Hi Hh Hr H.
+  assert (Hin : forall (P : cfr -> Prop) l, (forall a, In a (reals l) -> P a) ->
+                (forall f, i = IReal f -> P f) -> forall a, In a (reals (l ++ [i])) -> P a).
+  { intros P l Hl Hf a Ha. rewrite reals_app in Ha. apply in_app_or in Ha.
+    destruct Ha as [Ha|Ha]; [exact (Hl a Ha)|]. apply Hf. exact (reals_single_in i a Ha). }
+  destruct h as [|g| | |[|]|]; cbn [ThrV real_ok] in *.
+  - contradiction Hh; reflexivity.
+  - destruct H as [A B]. split; [apply noT_app; [exact A|exact (noT_single i Hi)]|].
+    apply Hin; assumption.
+  - destruct H as [A B]. split; [apply noT_app; [exact A|exact (noT_single i Hi)]|].
+    apply Hin; assumption.
+  - destruct H as [[A B]|(pre & post & E & P1 & P2 & P3 & P4)].
+    + left. split; [apply noT_app; [exact A|exact (noT_single i Hi)]|exact B].
+    + right. exists pre, (post ++ [i]). split; [rewrite E, <- app_assoc; reflexivity|].
+      split; [exact P1|]. split; [apply noT_app; [exact P2|exact (noT_single i Hi)]|].
+      split; [exact P3|]. apply Hin; assumption.
+  - destruct H as [[A B]|(pre & post & E & P1 & P2 & P3 & P4)].
+    + left. split; [apply noT_app; [exact A|exact (noT_single i Hi)]|exact B].
+    + right. exists pre, (post ++ [i]). split; [rewrite E, <- app_assoc; reflexivity|].
+      split; [exact P1|]. split; [apply noT_app; [exact P2|exact (noT_single i Hi)]|].
+      split; [exact P3|]. apply Hin; assumption.
+  - apply noT_app; [exact H|exact (noT_single i Hi)].
+  - apply noT_app; [exact H|exact (noT_single i Hi)].
+Qed.
+
+Lemma thr_step : forall s k fl fl', reach s -> nth_error (g_fs s) k = Some fl ->
+  fstep s fl fl' -> Thr fl -> Thr fl'.
+Proof.
+  intros s k fl fl' R E St H.
+  pose proof (shape s k fl R E) as (Sex & Shb & Sln & Hh).
+  pose proof (main_inv s k fl R E) as HM. unfold Main in HM.
+  inversion St; subst fl'; clear St; unfold Thr in *.
+  - (* subscribe *)
+    fprj. change (items (sub_fl s fl)) with (@nil item).
+    destruct (f_h fl) as [| | | |[|]|]; cbn [ThrV]; try reflexivity; exfalso; split_all; congruence.
+  - (* start, tail *)
+    fprj. change (items (start_tail_fl fl)) with (@nil item). cbn [ThrV]. intros [].
+  - (* start *)
+    rewrite items_hadv. change (items (start_fl s fl)) with (@nil item).
+    destruct (hadv_cases s (start_fl s fl)) as [(g & _ & _ & ->)|[(g & _ & _ & ->)|(_ & ->)]];
+      fprj; cbn [ThrV].
+    + intros [].
+    + split; [intros []|intros a []].
+    + split; [intros []|intros a []].
+  - (* history send *)
+    rewrite items_hadv. change (items (bump (push fl (IReal f)))) with (items (push fl (IReal f))).
+    rewrite items_push. rewrite H0 in H, HM. cbn [ThrV MainV] in H, HM.
+    destruct H as [A B]. destruct HM as (Hg & Hs & Hl & Hsn & Hpk).
+    assert (NT : noT (items fl ++ [IReal f])) by (apply noT_app; [exact A|apply noT_single; discriminate]).
+    destruct (hadv_cases s (bump (push fl (IReal f)))) as [(g & Ep & _ & ->)|[(g & Ep & _ & ->)|(Ep & ->)]];
+      fprj; fprj_in Ep; cbn [ThrV].
+    + exact NT.
+    + split; [exact NT|]. rewrite Ep in Hpk. destruct Hpk as (_ & _ & P3 & _).
+      intros a Ha. rewrite reals_app in Ha. apply in_app_or in Ha. destruct Ha as [Ha|[Ha|[]]].
+      * specialize (B a Ha). lia.
+      * subst a. exact P3.
+    + split; [exact NT|]. rewrite Hl. cbn [leB].
+      intros a Ha. rewrite reals_app in Ha. apply in_app_or in Ha. destruct Ha as [Ha|[Ha|[]]].
+      * specialize (B a Ha). lia.
+      * subst a. lia.
+  - (* threshold pushed *)
+    fprj. change (items (set_h (push fl IThreshold) HAtDone)) with (items (push fl IThreshold)).
+    rewrite items_push. rewrite H0 in H. cbn [ThrV] in *. destruct H as [A B].
+    right. exists (items fl), []. split; [reflexivity|]. split; [exact A|]. split; [intros []|].
+    split; [exact B|intros b []].
+  - (* threshold not pushed *)
+    fprj. change (items (set_h fl HAtDone)) with (items fl). rewrite H0 in H. cbn [ThrV] in *.
+    left. split; [exact (proj1 H)|assumption].
+  - (* hand-off, exit *)
+    fprj. change (items (exit_live (handoff fl))) with (items fl). rewrite H0 in H. exact H.
+  - (* hand-off *)
+    fprj. change (items (handoff fl)) with (items fl). rewrite H0 in H. exact H.
+  - exact H.
+  - exact H.
+  - exact H.
+  - (* deliver *)
+    fprj. change (items (set_l (push fl (IReal f)) LAtSent)) with (items (push fl (IReal f))).
+    rewrite items_push. apply thrv_app; [discriminate| | |exact H].
+    + intros X. rewrite X in Hh. cbv beta iota in Hh. destruct Hh as (Y & _). congruence.
+    + intros f0 Ef. inversion Ef; subst f0. rewrite H0 in Hh.
+      destruct (f_h fl) as [|g| | |[|]|]; cbn [real_ok]; cbv beta iota in Hh;
+        try exact I; try (exfalso; split_all; congruence).
+      unfold leL in H2. unfold gtB. destruct (f_last fl) as [l|]; [|exact I].
+      apply N.leb_gt in H2. exact H2.
+  - exact H.
+  - exact H.
+  - (* pulse *)
+    rewrite items_push. fprj. apply thrv_app; [discriminate| |intros f0 X; discriminate X|exact H].
+    intros X. rewrite X in Hh. cbv beta iota in Hh. destruct Hh as (_ & Y & _). congruence.
+  - (* consume *)
+    fprj. rewrite (items_consume fl i r H0). exact H.
+Qed.
+
+Theorem thr : forall s k fl, reach s -> nth_error (g_fs s) k = Some fl -> Thr fl.
+Proof.
+  apply (follower_ind_local Thr).
+  - intros o. reflexivity.
+  - exact thr_step.
+Qed.
+
+Lemma split_unique : forall (p1 q1 p2 q2 : list item),
+  noT p1 -> noT q1 -> p1 ++ IThreshold :: q1 = p2 ++ IThreshold :: q2 -> p2 = p1 /\ q2 = q1.
+Proof.
+  induction p1 as [|a p1 IH]; intros q1 p2 q2 N1 N2 E.
+  - destruct p2 as [|b p2]; cbn [app] in E.
+    + inversion E. split; reflexivity.
+    + exfalso. inversion E; subst. apply N2. apply in_or_app. right; left; reflexivity.
+  - destruct p2 as [|b p2]; cbn [app] in E.
+    + exfalso. inversion E; subst. apply N1. left; reflexivity.
+    + inversion E; subst. destruct (IH q1 p2 q2) as [A B]; try assumption.
+      * intros X. apply N1. right; exact X.
+      * split; [f_equal; exact A|exact B].
+Qed.
+
+Lemma thr_cases : forall s k fl, reach s -> nth_error (g_fs s) k = Some fl ->
+  noT (items fl) \/ split_at_threshold (f_last fl) (items fl).
+Proof.
+  intros s k fl R E. pose proof (thr s k fl R E) as H. unfold Thr in H.
+  destruct (f_h fl) as [|g| | |[|]|]; cbn [ThrV] in H; try tauto.
+  left. rewrite H. intros [].
+Qed.
+
+Theorem threshold_once : forall s k fl pre post, reach s -> nth_error (g_fs s) k = Some fl ->
+  f_got fl ++ f_out fl = pre ++ IThreshold :: post ->
+  ~ In IThreshold pre /\ ~ In IThreshold post.
+Proof.
+  intros s k fl pre post R E X. fold (items fl) in X.
+  destruct (thr_cases s k fl R E) as [H|(p & q & Eq & P1 & P2 & _)].
+  - exfalso. apply H. rewrite X. apply in_or_app. right; left; reflexivity.
+  - rewrite Eq in X. destruct (split_unique p q pre post P1 P2 X) as [-> ->]. split; assumption.
+Qed.
+
+Theorem threshold_position : forall s k fl pre post, reach s -> nth_error (g_fs s) k = Some fl ->
+  f_got fl ++ f_out fl = pre ++ IThreshold :: post ->
+  (forall a b, In a (reals pre) -> In b (reals post) -> c_id a < c_id b) /\
+  (forall a, In a (reals pre) -> match f_last fl with Some l => c_id a <= l | None => False end) /\
+  (forall b, In b (reals post) -> match f_last fl with Some l => l < c_id b | None => True end).
+Proof.
+  intros s k fl pre post R E X. fold (items fl) in X.
+  destruct (thr_cases s k fl R E) as [H|(p & q & Eq & P1 & P2 & P3 & P4)].
+  - exfalso. apply H. rewrite X. apply in_or_app. right; left; reflexivity.
+  - rewrite Eq in X. destruct (split_unique p q pre post P1 P2 X) as [-> ->].
+    split; [|split; assumption]. intros a b Ha Hb. specialize (P3 a Ha). specialize (P4 b Hb).
+    unfold leB, gtB in *. destruct (f_last fl) as [l|]; [lia|contradiction].
+Qed.
+
+(* the marker is there as soon as the history thread is past it, when it was asked for *)
+Theorem threshold_present : forall s k fl, reach s -> nth_error (g_fs s) k = Some fl ->
+  (f_h fl = HAtDone \/ f_h fl = HFinished true) -> wants_threshold (fo fl) = true ->
+  In IThreshold (f_got fl ++ f_out fl).
+Proof.
+  intros s k fl R E Eh W. pose proof (thr s k fl R E) as H. unfold Thr in H.
+  assert (X : (noT (items fl) /\ wants_threshold (fo fl) = false) \/
+              split_at_threshold (f_last fl) (items fl))
+    by (destruct Eh as [Eh|Eh]; rewrite Eh in H; exact H).
+  destruct X as [[_ X]|(p & q & Eq & _)]; [congruence|].
+  fold (items fl). rewrite Eq. apply in_or_app. right; left; reflexivity.
+Qed.
+
+(* ------------------------------------------------------------------ *)
+(* invariants of one follower along a schedule, from any reachable    *)
+(* state (used for properties relative to the subscription point)     *)
+(* ------------------------------------------------------------------ *)
+
+Theorem follower_run_ind : forall (P : cstate -> follower -> Prop) (k : nat),
+  (forall s s' fl, reach s -> reach s' -> grow s s' -> nth_error (g_fs s) k = Some fl ->
+                   P s fl -> P s' fl) ->
+  (forall s s' fl fl', reach s -> reach s' -> g_stream s' = g_stream s -> g_chan s' = g_chan s ->
+                       nth_error (g_fs s) k = Some fl -> fstep s fl fl' -> P s fl -> P s' fl') ->
+  forall sched s s' fl fl', reach s -> nth_error (g_fs s) k = Some fl -> P s fl ->
+    crun s sched = Some s' -> nth_error (g_fs s') k = Some fl' -> P s' fl'.
+Proof.
+  intros P k Hg Hf. induction sched as [|l r IH]; intros s s' fl fl' R E HP H E'; cbn [crun] in H.
+  - inversion H; subst s'. rewrite E in E'. inversion E'; subst fl'. exact HP.
+  - destruct (cstep s l) as [s1|] eqn:E1; [|discriminate H].
+    pose proof (reach_step s l s1 R E1) as R1.
+    destruct (cstep_follower s l s1 k fl (reach_inv s R) E1 E) as [[E2 G]|(fl1 & E2 & St & Es & Ec)].
+    + exact (IH s1 s' fl fl' R1 E2 (Hg s s1 fl R R1 G E HP) H E').
+    + exact (IH s1 s' fl1 fl' R1 E2 (Hf s s1 fl fl1 R R1 Es Ec E St HP) H E').
+Qed.
+
+(* ------------------------------------------------------------------ *)
+(* relative to the subscription point p0: the live task delivers      *)
+(* exactly the in-context channel elements from p0 on whose id is     *)
+(* above the hand-off id (ephemeral or not); a tail follower delivers *)
+(* nothing else                                                       *)
+(* ------------------------------------------------------------------ *)
+
+Definition in_history (h : hst) : Prop :=
+  match h with HNotStarted | HAtSend _ | HAtThreshold | HAtDone => True | _ => False end.
+
+Definition LiveFrom (p0 : nat) (s : cstate) (fl : follower) : Prop :=
+  f_subscribed fl = true /\ (p0 <= f_pos fl)%nat /\
+  (forall x, f_l fl = LAtRecv x -> (p0 < f_pos fl)%nat) /\
+  (in_history (f_h fl) -> f_pos fl = p0) /\
+  (forall i x, (p0 <= i < qp (f_l fl) (f_pos fl))%nat -> nth_error (g_chan s) i = Some x ->
+               in_scope_c (o_ctx (fo fl)) x = true -> leL (f_last fl) x = false -> In x (seen fl)) /\
+  (o_tail (fo fl) = true ->
+   Forall (fun f => exists i, (p0 <= i < f_pos fl)%nat /\ nth_error (g_chan s) i = Some f) (seen fl)).
+
+Lemma f_sub_hadv : forall s fl, f_subscribed (hist_advance s fl) = f_subscribed fl.
+Proof.
+  intros s fl. destruct (hadv_cases s fl) as [(g & _ & _ & ->)|[(g & _ & _ & ->)|(_ & ->)]]; reflexivity.
+Qed.
+
+Lemma f_l_hadv_recv : forall s fl y, f_l (hist_advance s fl) = LAtRecv y -> f_l fl = LAtRecv y.
+Proof.
+  intros s fl y. destruct (hadv_cases s fl) as [(g & _ & _ & ->)|[(g & _ & _ & ->)|(_ & ->)]]; fprj;
+    try (intros H; exact H).
+  destruct (f_l fl); intros H; discriminate H.
+Qed.
+
+Lemma livefrom_step : forall p0 s s' k fl fl', reach s -> reach s' ->
+  g_stream s' = g_stream s -> g_chan s' = g_chan s ->
+  nth_error (g_fs s) k = Some fl -> fstep s fl fl' -> LiveFrom p0 s fl -> LiveFrom p0 s' fl'.
+Proof.
+  intros p0 s s' k fl fl' R R' Es Ec E St (T1 & T2 & T3 & T4 & T5 & T6).
+  pose proof (shape s k fl R E) as (Sex & Shb & Sln & Hh).
+  pose proof (main_inv s k fl R E) as HM. unfold Main in HM.
+  unfold LiveFrom. rewrite (fo_step s fl fl' St), Ec.
+  assert (Same : forall fl', f_subscribed fl' = f_subscribed fl -> f_pos fl' = f_pos fl ->
+                   (forall x, f_l fl' = LAtRecv x -> exists y, f_l fl = LAtRecv y) ->
+                   (in_history (f_h fl') -> in_history (f_h fl)) ->
+                   qp (f_l fl') (f_pos fl) = qp (f_l fl) (f_pos fl) -> f_last fl' = f_last fl ->
+                   seen fl' = seen fl ->
+                   f_subscribed fl' = true /\ (p0 <= f_pos fl')%nat /\
+                   (forall x, f_l fl' = LAtRecv x -> (p0 < f_pos fl')%nat) /\
+                   (in_history (f_h fl') -> f_pos fl' = p0) /\
+                   (forall i x, (p0 <= i < qp (f_l fl') (f_pos fl'))%nat -> nth_error (g_chan s) i = Some x ->
+                      in_scope_c (o_ctx (fo fl)) x = true -> leL (f_last fl') x = false -> In x (seen fl')) /\
+                   (o_tail (fo fl) = true ->
+                    Forall (fun f => exists i, (p0 <= i < f_pos fl')%nat /\ nth_error (g_chan s) i = Some f)
+                           (seen fl'))).
+  { intros fl0 A B C D Q L S. rewrite A, B, S, L, Q. split; [exact T1|]. split; [exact T2|].
+    split; [intros x Hx; destruct (C x Hx) as [y Hy]; exact (T3 y Hy)|].
+    split; [intros X; exact (T4 (D X))|]. split; [exact T5|exact T6]. }
+  assert (Empty : forall fl', f_pos fl' = f_pos fl -> in_history (f_h fl) ->
+                    forall i x, (p0 <= i < qp (f_l fl') (f_pos fl'))%nat -> nth_error (g_chan s) i = Some x ->
+                      in_scope_c (o_ctx (fo fl)) x = true -> leL (f_last fl') x = false -> In x (seen fl')).
+  { intros fl0 A B i x Hi. exfalso. pose proof (qp_le (f_l fl0) (f_pos fl0)). rewrite A, (T4 B) in *. lia. }
+  inversion St; subst fl'; clear St.
+  - congruence.
+  - fprj. split; [reflexivity|]. split; [exact T2|]. split.
+    + intros x Hx. destruct (o_follow (fo fl)); discriminate Hx.
+    + split; [intros []|]. split.
+      * apply (Empty (start_tail_fl fl)); [reflexivity|]. rewrite H0. exact I.
+      * intros _. rewrite seen_start_tail. constructor.
+  - rewrite f_sub_hadv, f_pos_hist. fprj. split; [reflexivity|]. split; [exact T2|]. split.
+    + intros x Hx. apply f_l_hadv_recv in Hx. fprj_in Hx. destruct (o_follow (fo fl)); discriminate Hx.
+    + split; [intros _; apply T4; rewrite H0; exact I|]. split.
+      * intros i x Hi. exfalso. pose proof (qp_le (f_l (hist_advance s (start_fl s fl))) (f_pos fl)).
+        rewrite T4 in * by (rewrite H0; exact I). lia.
+      * intros _. rewrite seen_hadv, seen_start. constructor.
+  - rewrite f_sub_hadv, f_pos_hist. fprj. split; [exact T1|]. split; [exact T2|]. split.
+    + intros x Hx. apply f_l_hadv_recv in Hx. fprj_in Hx. exact (T3 x Hx).
+    + split; [intros _; apply T4; rewrite H; exact I|]. split.
+      * intros i x Hi. exfalso.
+        pose proof (qp_le (f_l (hist_advance s (bump (push fl (IReal f))))) (f_pos fl)).
+        rewrite T4 in * by (rewrite H; exact I). lia.
+      * intros Ht. exfalso. rewrite H in Hh. cbv beta iota in Hh. destruct Hh as (_ & X & _). congruence.
+  - apply Same; try reflexivity; [intros x Hx; exists x; exact Hx| |].
+    + intros _. rewrite H. exact I.
+    + rewrite seen_set_h, seen_push_thr. reflexivity.
+  - apply Same; try reflexivity; [intros x Hx; exists x; exact Hx|].
+    intros _. rewrite H. exact I.
+  - apply Same; try reflexivity; [intros x Hx; discriminate Hx|intros []|].
+    fprj. rewrite H0. reflexivity.
+  - apply Same; try reflexivity; [intros x Hx; exists x; exact Hx|intros []].
+  - apply Same; try reflexivity; [intros x Hx; discriminate Hx|intros X; exact X|].
+    fprj. destruct H as [[El _]|El]; rewrite El; reflexivity.
+  - assert (NH : ~ in_history (f_h fl)).
+    { intros X. destruct H as [[El Eh]|El]; [rewrite Eh in X; exact X|].
+      destruct (f_h fl) as [| | | |[|]|]; try exact X; split_all; congruence. }
+    assert (Q : qp (f_l fl) (f_pos fl) = f_pos fl) by (destruct H as [[El _]|El]; rewrite El; reflexivity).
+    fprj. rewrite seen_recv. split; [exact T1|]. split; [lia|]. split; [intros x _; lia|].
+    split; [intros X; contradiction (NH X)|]. split.
+    + cbn [qp pred]. rewrite <- Q. exact T5.
+    + intros Ht. specialize (T6 Ht). eapply Forall_impl; [|exact T6].
+      intros a (i & Hi & Hn). exists i. split; [lia|exact Hn].
+  - (* skip *)
+    assert (Hin : inhand (g_chan s) (f_l fl) (f_pos fl)).
+    { rewrite H in Hh. destruct (f_h fl) as [|g| | |[|]|]; cbn [MainV] in HM; cbv beta iota in Hh;
+        try (exfalso; split_all; congruence).
+      - destruct HM as (_ & ls & _ & _ & X). exact X.
+      - destruct HM as (_ & X). exact X. }
+    destruct (Hin f H) as [Hp Hn].
+    fprj. rewrite seen_set_l. split; [exact T1|]. split; [exact T2|].
+    split; [intros x Hx; discriminate Hx|]. split; [exact T4|]. split; [|exact T6].
+    cbn [qp]. intros i x Hi Hx Cx Lx. destruct (PeanoNat.Nat.eq_dec i (pred (f_pos fl))) as [->|D].
+    + rewrite Hn in Hx. inversion Hx; subst x. rewrite Cx, Lx in H0. discriminate H0.
+    + apply (T5 i x); try assumption. rewrite H. cbn [qp]. lia.
+  - (* deliver *)
+    assert (Hin : inhand (g_chan s) (f_l fl) (f_pos fl)).
+    { rewrite H in Hh. destruct (f_h fl) as [|g| | |[|]|]; cbn [MainV] in HM; cbv beta iota in Hh;
+        try (exfalso; split_all; congruence).
+      - destruct HM as (_ & ls & _ & _ & X). exact X.
+      - destruct HM as (_ & X). exact X. }
+    destruct (Hin f H) as [Hp Hn]. pose proof (T3 f H) as Hp0.
+    fprj. rewrite seen_set_l, seen_push_real. split; [exact T1|]. split; [exact T2|].
+    split; [intros x Hx; discriminate Hx|]. split; [exact T4|]. split.
+    + cbn [qp]. intros i x Hi Hx Cx Lx. apply in_or_app.
+      destruct (PeanoNat.Nat.eq_dec i (pred (f_pos fl))) as [->|D].
+      * rewrite Hn in Hx. inversion Hx; subst x. right; left; reflexivity.
+      * left. apply (T5 i x); try assumption. rewrite H. cbn [qp]. lia.
+    + intros Ht. apply Forall_app. split; [exact (T6 Ht)|]. constructor; [|constructor].
+      exists (pred (f_pos fl)). split; [lia|exact Hn].
+  - apply Same; try reflexivity; [|intros X; exact X|].
+    + intros x Hx. fprj_in Hx. destruct (n <=? f_lcount fl + 1); discriminate Hx.
+    + fprj. rewrite H. destruct (n <=? f_lcount fl + 1); reflexivity.
+  - apply Same; try reflexivity; [intros x Hx; discriminate Hx|intros X; exact X|].
+    fprj. rewrite H. reflexivity.
+  - apply Same; try reflexivity; [intros x Hx; exists x; exact Hx|intros X; exact X|]. apply seen_push_pulse.
+  - apply Same; try reflexivity; [intros x Hx; exists x; exact Hx|intros X; exact X|]. apply seen_consume. exact H.
+Qed.
+
+Lemma livefrom_grow : forall p0 s s' k fl, reach s -> nth_error (g_fs s) k = Some fl ->
+  grow s s' -> LiveFrom p0 s fl -> LiveFrom p0 s' fl.
+Proof.
+  intros p0 s s' k fl R E G (T1 & T2 & T3 & T4 & T5 & T6).
+  pose proof (i_fs s (reach_inv s R) k fl E) as Hp.
+  split; [exact T1|]. split; [exact T2|]. split; [exact T3|]. split; [exact T4|]. split.
+  - intros i x Hi Hn. apply (T5 i x Hi).
+    destruct G as [_ E2|f _ E2 _ _|f _ E2 _]; rewrite E2 in Hn; try exact Hn.
+    rewrite nth_error_app1 in Hn; [exact Hn|]. pose proof (qp_le (f_l fl) (f_pos fl)). lia.
+  - intros Ht. specialize (T6 Ht). eapply Forall_impl; [|exact T6]. intros a (i & Hi & Hn).
+    exists i. split; [exact Hi|]. destruct G as [_ E2|f _ E2 _ _|f _ E2 _]; rewrite E2; try exact Hn.
+    apply nth_error_app_some. exact Hn.
+Qed.
+
+Theorem live_from_subscription : forall s k s1 sched s2 fl2, reach s ->
+  cstep s (LSubscribe k) = Some s1 -> crun s1 sched = Some s2 ->
+  nth_error (g_fs s2) k = Some fl2 -> LiveFrom (length (g_chan s)) s2 fl2.
+Proof.
+  intros s k s1 sched s2 fl2 R H1 H2 E2.
+  pose proof (reach_step s _ s1 R H1) as R1.
+  cbn [cstep follower_step] in H1.
+  destruct (nth_error (g_fs s) k) as [fl|] eqn:E; [|discriminate H1].
+  destruct (f_subscribed fl) eqn:Es; [discriminate H1|]. inversion H1; subst s1; clear H1.
+  fold (sub_fl s fl) in *.
+  assert (E1 : nth_error (g_fs (set_f s k (sub_fl s fl))) k = Some (sub_fl s fl))
+    by (unfold set_f; prj; exact (nth_upd_same _ _ _ _ _ E)).
+  assert (T : LiveFrom (length (g_chan s)) (set_f s k (sub_fl s fl)) (sub_fl s fl)).
+  { pose proof (shape s k fl R E) as (_ & _ & _ & Hh).
+    assert (Hl : f_l fl = LNone) by (destruct (f_h fl) as [| | | |[|]|]; split_all; congruence).
+    split; [reflexivity|]. split; [apply le_n|]. split.
+    - intros x Hx. fprj_in Hx. congruence.
+    - split; [intros _; reflexivity|]. split.
+      + fprj. rewrite Hl. cbn [qp]. intros i x Hi. lia.
+      + intros _. rewrite seen_sub. constructor. }
+  exact (follower_run_ind (LiveFrom (length (g_chan s))) k
+           (fun s0 s' fl0 R0 _ G E0 X => livefrom_grow _ s0 s' k fl0 R0 E0 G X)
+           (fun s0 s' fl0 fl' R0 R' A B C D X => livefrom_step _ s0 s' k fl0 fl' R0 R' A B C D X)
+           sched _ s2 _ fl2 R1 E1 T H2 E2).
+Qed.
+
+(* F5, strong form *)
+Corollary tail_after_subscription : forall s k s1 sched s2 fl2, reach s ->
+  cstep s (LSubscribe k) = Some s1 -> crun s1 sched = Some s2 ->
+  nth_error (g_fs s2) k = Some fl2 -> o_tail (fo fl2) = true ->
+  Forall (fun f => exists i, (length (g_chan s) <= i < f_pos fl2)%nat /\
+                             nth_error (g_chan s2) i = Some f) (seen fl2) /\
+  (forall i x, (length (g_chan s) <= i < qp (f_l fl2) (f_pos fl2))%nat ->
+               nth_error (g_chan s2) i = Some x -> in_scope_c (o_ctx (fo fl2)) x = true ->
+               In x (seen fl2)).
+Proof.
+  intros s k s1 sched s2 fl2 R H1 H2 E2 Ht.
+  pose proof (live_from_subscription s k s1 sched s2 fl2 R H1 H2 E2) as (_ & _ & _ & _ & T5 & T6).
+  split; [exact (T6 Ht)|]. intros i x Hi Hn Cx. apply (T5 i x Hi Hn Cx).
+  pose proof (reach_run _ _ _ (reach_step s _ s1 R H1) H2) as R2.
+  destruct (tail_no_history s2 k fl2 R2 E2 Ht) as (_ & _ & L & _). rewrite L. reflexivity.
+Qed.
+
+(* live completeness for every follower, ephemeral frames included: a channel element
+   from the subscription point on that the live task has processed, in context and above
+   the hand-off id, has been delivered *)
+Corollary live_complete : forall s k s1 sched s2 fl2, reach s ->
+  cstep s (LSubscribe k) = Some s1 -> crun s1 sched = Some s2 ->
+  nth_error (g_fs s2) k = Some fl2 ->
+  forall i x, (length (g_chan s) <= i < qp (f_l fl2) (f_pos fl2))%nat ->
+              nth_error (g_chan s2) i = Some x -> in_scope_c (o_ctx (fo fl2)) x = true ->
+              leL (f_last fl2) x = false -> In x (seen fl2).
+Proof.
+  intros s k s1 sched s2 fl2 R H1 H2 E2.
+  pose proof (live_from_subscription s k s1 sched s2 fl2 R H1 H2 E2) as (_ & _ & _ & _ & T5 & _).
+  exact T5.
+Qed.
+
+(* ------------------------------------------------------------------ *)
+(* what is not delivered at the hand-off and lies at or below the     *)
+(* hand-off id is never delivered (for ephemeral frames: the gap)     *)
+(* ------------------------------------------------------------------ *)
+
+Lemma handed_off_stable : forall l sched s s' k fl fl', reach s -> crun s sched = Some s' ->
+  nth_error (g_fs s) k = Some fl -> nth_error (g_fs s') k = Some fl' ->
+  f_h fl = HFinished true /\ f_last fl = Some l ->
+  (f_h fl' = HFinished true /\ f_last fl' = Some l) /\ fo fl' = fo fl.
+Proof.
+  intros l. apply (crun_stable _ fo (fun fl => f_h fl = HFinished true /\ f_last fl = Some l)).
+  intros s k fl fl' R E St [Eh El]. split; [|exact (fo_step s fl fl' St)].
+  pose proof (shape s k fl R E) as (_ & _ & _ & Hh). rewrite Eh in Hh.
+  inversion St; subst fl'; fprj; try (split; assumption); try congruence.
+  destruct Hh as [_ X]. congruence.
+Qed.
+
+Theorem below_handoff_never_delivered : forall s k fl l x, reach s ->
+  nth_error (g_fs s) k = Some fl -> f_h fl = HFinished true -> f_last fl = Some l ->
+  c_id x <= l -> ~ In x (seen fl) ->
+  forall sched s' fl', crun s sched = Some s' -> nth_error (g_fs s') k = Some fl' ->
+  ~ In x (seen fl').
+Proof.
+  intros s k fl l x R E Eh El Hx Hns sched s' fl' H E' Hin.
+  destruct (handed_off_stable l sched s s' k fl fl' R H E E' (conj Eh El)) as [[Eh' El'] Eo].
+  pose proof (reach_run s sched s' R H) as R'.
+  pose proof (main_inv s k fl R E) as HM. pose proof (main_inv s' k fl' R' E') as HM'.
+  unfold Main in HM, HM'. rewrite Eh, El in HM. rewrite Eh', El', Eo in HM'. cbn [MainV] in HM, HM'.
+  destruct HM as ((g & Hg & Eg & _) & ls & Hsn & _).
+  destruct HM' as (_ & ls' & Hsn' & (_ & L2 & _) & _).
+  rewrite Hsn' in Hin. apply in_app_or in Hin. destruct Hin as [Hin|Hin].
+  - apply filter_In in Hin. destruct Hin as [Hst' Hc].
+    destruct (run_appends_at_end s sched s' R H) as [(suf & Es & Ha) _].
+    rewrite Es in Hst'. apply in_app_or in Hst'. destruct Hst' as [Hst|Hst].
+    + apply Hns. rewrite Hsn. apply in_or_app. left. apply filter_In. split; assumption.
+    + rewrite Forall_forall in Ha. specialize (Ha x Hst). rewrite Forall_forall in Ha.
+      specialize (Ha g Hg). lia.
+  - destruct (L2 x Hin) as (i & _ & _ & _ & X). cbn [leL] in X. apply N.leb_gt in X. lia.
+Qed.
+
+(* in the witness state the ephemeral frame #2 is lost for good *)
+Corollary ephemeral_never_delivered :
+  exists s fl, reach s /\ crun eph_init eph_sched = Some s /\ nth_error (g_fs s) 0 = Some fl /\
+    nth_error (g_chan s) 2 = Some (mkC 2 0 true) /\ scope_ok (fo fl) (mkC 2 0 true) = true /\
+    forall sched s' fl', crun s sched = Some s' -> nth_error (g_fs s') 0 = Some fl' ->
+                         ~ In (mkC 2 0 true) (seen fl').
+Proof.
+  destruct ephemeral_dropped_witness as (s & fl & R & H & E & _ & Hs & Hc & Hsc & Hn & _ & _ & _ & Hl).
+  exists s, fl. split; [exact R|]. split; [exact H|]. split; [exact E|]. split; [exact Hc|].
+  split; [exact Hsc|].
+  assert (Eh : f_h fl = HFinished true).
+  { clear - H E. vm_compute in H. inversion H; subst s. vm_compute in E. inversion E; subst fl. reflexivity. }
+  apply (below_handoff_never_delivered s 0 fl 3 (mkC 2 0 true) R E Eh Hl); [cbn [c_id]; lia|exact Hn].
+Qed.
+
+Print Assumptions shape.
+Print Assumptions seen_increasing.
+Print Assumptions seen_nodup.
+Print Assumptions seen_in_scope.
+Print Assumptions seen_after_last.
+Print Assumptions seen_scope_ok.
+Print Assumptions seen_visible_strong.
+Print Assumptions seen_visible.
+Print Assumptions no_gap.
+Print Assumptions tail_no_history.
+Print Assumptions tail_after_subscription.
+Print Assumptions live_complete.
+Print Assumptions live_from_subscription.
+Print Assumptions threshold_once.
+Print Assumptions threshold_position.
+Print Assumptions threshold_present.
+Print Assumptions limit_exact.
+Print Assumptions limit_closes.
+Print Assumptions limit_ends_stream.
+Print Assumptions closed_spec.
+Print Assumptions exited_is_final.
+Print Assumptions exited_no_more.
+Print Assumptions pulse_only_if_asked.
+Print Assumptions threshold_only_if_following.
+Print Assumptions ephemeral_dropped_witness.
+Print Assumptions below_handoff_never_delivered.
+Print Assumptions ephemeral_never_delivered.
+Print Assumptions history_then_live_reachable.
+Print Assumptions limit_reached_reachable.
+Print Assumptions tail_limit_zero_delivers_one.
+Print Assumptions future_last_id_not_filtered_live.
+Print Assumptions main_inv.
+Print Assumptions g1.
+Print Assumptions stream_in_chan_or_above.
